@@ -100,7 +100,15 @@ RULE = (
     "13 library grids with derived point arrays (off-origin / single-shell AtomGrid, MolGrid, LocalGrid, wrapped PeriodicGrid incl. a "
     "negative 1-D lattice vector, UniformGrid with negative axes in 2-D / 3-D, Tensor1DGrids, OneDGrid, one-point Grid) with the grid's own "
     "centre, the origin, a grid point and a shell point as centres, integrate(f) = zeroth moment on each; dipole for every Z of the table "
-    "(the last one in every run), net charges -2 … +2, molecules 2^k from the origin; masses against independent standard atomic weights"
+    "(the last one in every run), net charges -2 … +2, molecules 2^k from the origin; masses against independent standard atomic weights. Round 4 (every run): lattice grids with centres exactly on grid points (origin, "
+    "two lattice points) for all four types and L up to 6; sizes 1 and 2 with pairwise different numbers of points / centres / rows; dtype and "
+    "layout (integer, bool, float32, read-only, strided, negative strides, Fortran) of the points / weights held by the Grid / OneDGrid object; "
+    "function values as longdouble / float16 (corr) and complex128 / complex64 (oracle: real and imaginary parts separately), integrate of complex "
+    "arrays; call forms: defaults given explicitly, keywords in another order, generate_orders_horton_order with dim omitted / by keyword, the dipole "
+    "helper by keywords; one function-value array object (a view into a larger array) through all four types twice, integrate(f), integrate(f, f), "
+    "the grid's own weights / points arrays as f / centres, the dipole helper, with the surrounding bytes checked; histories with rejected calls of "
+    "every kind in between and comparison with a fresh grid object; corr and oracle run as independent parts (an exception in one is recorded, the "
+    "others still run)"
 )
 TRUSTED_BASE = [
     "Lean 4.33 kernel; axioms propext, Classical.choice, Quot.sound only (audited per theorem)",
@@ -131,6 +139,46 @@ ASSUMPTIONS = [
 ]
 
 TYPES = ["cartesian", "radial", "pure", "pure-radial"]
+
+
+class _Parts:
+    """Independent parts of `corr` / `oracle` (round 4: crash-proof): `with parts("name"): …` catches what the part raises,
+    so that the other parts still run.  An exception whose innermost frame is library code (…/grid/*.py, not the harness)
+    is the library raising inside the envelope: recorded as a failure `<stage> C14.<name>:raises` with the traceback as
+    witness.  Anything else (harness bug, driver / translator problem) is kept and the first one is re-raised by
+    `finish()` after every part has run, where the runner reports it as it did before."""
+
+    def __init__(self, ctx, stage):
+        self.ctx, self.stage, self.first, self.name = ctx, stage, None, None
+
+    def __call__(self, name):
+        self.name = name
+        return self
+
+    def __enter__(self):
+        return self
+
+    def __exit__(self, et, ev, tb):
+        if et is None:
+            return False
+        if not issubclass(et, Exception):
+            return False                                   # KeyboardInterrupt, SystemExit
+        import traceback
+        frames = traceback.extract_tb(tb)
+        inner = frames[-1].filename if frames else ""
+        lib = ("/grid/" in inner and "/verif/" not in inner and "site-packages" not in inner) or any(
+            "/grid/" in f.filename and "/harness/" not in f.filename and "site-packages" not in f.filename for f in frames[-3:])
+        if lib and not isinstance(ev, AssertionError):
+            self.ctx.fail(self.stage, f"C14.{self.name}:raises", f"part '{self.name}' of the {self.stage}: the library raised {et.__name__}: {ev}",
+                          witness="".join(traceback.format_exception(et, ev, tb))[-2500:])
+        elif self.first is None:
+            self.first = ev
+        self.ctx.info(f"{self.stage} part '{self.name}' raised {et.__name__}: {str(ev)[:200]}")
+        return True
+
+    def finish(self):
+        if self.first is not None:
+            raise self.first
 
 # Grids with a one-dimensional point array (every OneDGrid): Grid.moments reshapes (N,) to (N, 1).
 POINTS_1D_SNIPPET = """import warnings; warnings.filterwarnings('ignore')
@@ -234,12 +282,16 @@ def _layout(a, how):
     if how == "readonly":
         b = a.copy(); b.setflags(write=False)
         return b
+    if how == "negstride":                       # a view with negative strides onto reversed storage
+        return np.ascontiguousarray(a[(slice(None, None, -1),) * a.ndim])[(slice(None, None, -1),) * a.ndim] if a.ndim else a
     return a
 def build_args(case, Grid):
-    key = repr((case["pts"], case["w"]))
+    key = repr((case["pts"], case["w"], case.get("pdtype"), case.get("playout"), case.get("wdtype"), case.get("wlayout")))
     g = _GRID_POOL.get(key) if case.get("reuse_grid") else None
     if g is None:
-        g = Grid(np.array(case["pts"], dtype=float), np.array(case["w"], dtype=float))
+        # the arrays held by the grid object, in the dtype / layout named by the case (round 4, class 14)
+        g = Grid(_layout(np.array(case["pts"], dtype=float).astype(case.get("pdtype", "float64")), case.get("playout", "c")),
+                 _layout(np.array(case["w"], dtype=float).astype(case.get("wdtype", "float64")), case.get("wlayout", "c")))
         if len(_GRID_POOL) > 64:
             _GRID_POOL.clear()
         _GRID_POOL[key] = g
@@ -265,6 +317,10 @@ def call_moments(case, Grid):
             return g.moments(orders=L, centers=cs, func_vals=f, type_mom=case["typ"], return_orders=True)
         if how == "default-type":
             return g.moments(L, cs, f, return_orders=True)
+        if how == "explicit-defaults":           # the default of return_orders given explicitly
+            return g.moments(L, cs, f, case["typ"], False), g.moments(L, cs, f, case["typ"], return_orders=True)[1]
+        if how == "kw-shuffled":
+            return g.moments(return_orders=True, type_mom=case["typ"], func_vals=f, centers=cs, orders=L)
         return g.moments(L, cs, f, type_mom=case["typ"], return_orders=True)
     if not case.get("twice"):
         return once()
@@ -308,7 +364,10 @@ def call_dipole(d, Grid, dipole_moment_of_molecule):
     elif kind == "readonly":
         for a in (dens, coords, charges):
             a.setflags(write=False)
-    r1 = dipole_moment_of_molecule(g, dens, coords, charges)
+    if kind == "keywords":
+        r1 = dipole_moment_of_molecule(charges=charges, coords=coords, density=dens, grid=g)
+    else:
+        r1 = dipole_moment_of_molecule(g, dens, coords, charges)
     if d.get("twice"):
         dipole_moment_of_molecule(g, dens * 0.5, np.asarray(coords, dtype=float) + 0.1, charges)
         r2 = dipole_moment_of_molecule(g, dens, coords, charges)
@@ -318,7 +377,8 @@ def call_dipole(d, Grid, dipole_moment_of_molecule):
 exec(DIPOLE_CALL_SRC, _ns)
 call_dipole = _ns["call_dipole"]
 
-VARIANT_KEYS = ("fdtype", "cdtype", "clayout", "flayout", "otype", "call", "twice", "reuse_grid", "cs_is_points", "extreme")
+VARIANT_KEYS = ("fdtype", "cdtype", "clayout", "flayout", "otype", "call", "twice", "reuse_grid", "cs_is_points", "extreme",
+                "pdtype", "playout", "wdtype", "wlayout", "shape", "lattice")
 PUB_KEYS = ("typ", "L", "dim", "pts", "w", "f", "cs") + VARIANT_KEYS + ("atol", "unshifted")
 
 
@@ -359,21 +419,93 @@ def _case(ctx: Ctx, typ=None, dim=None, Lmax=6, prev=None):
     # the function values may be of any numeric dtype ("all function value arrays"): integer counts,
     # boolean indicator masks and single-precision arrays must give the same quadrature as their
     # float64 conversion
-    fdtype = rng.choice(["float64"] * 6 + ["int64", "int32", "bool", "float32"])
+    fdtype = rng.choice(["float64"] * 6 + ["int64", "int32", "bool", "float32", "longdouble", "float16"])
     if fdtype.startswith("int"):
         f = [float(rng.randint(-3, 4)) for _ in range(n)]
     elif fdtype == "bool":
         f = [float(rng.random() < 0.5) for _ in range(n)]
     elif fdtype == "float32":
         f = [float(np.float32(x)) for x in f]
+    elif fdtype == "float16":
+        f = [float(np.float16(x)) for x in f]
     lay = ["c"] * 5 + ["fortran", "strided", "readonly"]
     c = dict(typ=typ, L=L, dim=dim, pts=pts, w=w, f=f, cs=cs, fdtype=fdtype, cdtype=cdtype,
              clayout=rng.choice(lay), flayout=rng.choice(lay),
              otype=rng.choice(["int"] * 4 + ["np.int32", "np.int64"]),
-             call=rng.choice(["kw"] * 4 + ["positional", "no-orders", "all-kw"] + (["default-type"] if typ == "cartesian" else [])),
+             call=rng.choice(["kw"] * 4 + ["positional", "no-orders", "all-kw", "explicit-defaults", "kw-shuffled"] + (["default-type"] if typ == "cartesian" else [])),
              twice=rng.random() < 0.15, reuse_grid=reuse, cs_is_points=cs_is_points)
     if rng.random() < 0.22 and not reuse and not cs_is_points:
         _extreme(ctx, c)
+    elif rng.random() < 0.2 and not reuse:
+        _gridkinds(ctx, c)
+    return c
+
+
+GRID_LAYOUTS = ["c", "fortran", "strided", "readonly", "negstride"]
+
+
+def _gridkinds(ctx: Ctx, c):
+    """Round 4, class 14: dtype / layout of the arrays *held by the grid object* (points, weights): integer, float32,
+    read-only, strided, negative strides, Fortran order; the reference is the float64 computation on the same values."""
+    rng = ctx.rng
+    n, dim = len(c["pts"]), c["dim"]
+    c["pdtype"] = rng.choice(["float64", "float64", "float32", "int64", "int32"])
+    c["wdtype"] = rng.choice(["float64", "float64", "float32", "int64", "bool"])
+    c["playout"], c["wlayout"] = rng.choice(GRID_LAYOUTS), rng.choice(GRID_LAYOUTS)
+    if c["pdtype"].startswith("int"):
+        c["pts"] = [[float(rng.randint(-2, 2)) for _ in range(dim)] for _ in range(n)]
+        if c.get("cs_is_points"):
+            c["cs"] = [list(p_) for p_ in c["pts"]]
+    elif c["pdtype"] == "float32":
+        c["pts"] = [[float(np.float32(x)) for x in p_] for p_ in c["pts"]]
+        if c.get("cs_is_points"):
+            c["cs"] = [list(p_) for p_ in c["pts"]]
+    if c.get("cs_is_points") and c["pdtype"] != "float64":
+        c["cs_is_points"] = False                      # the centres stay float64 copies of the points
+    if c["wdtype"] == "int64":
+        c["w"] = [float(rng.randint(-1, 3)) for _ in range(n)]
+    elif c["wdtype"] == "bool":
+        c["w"] = [float(rng.random() < 0.7) for _ in range(n)]
+    elif c["wdtype"] == "float32":
+        c["w"] = [float(np.float32(x)) for x in c["w"]]
+    c["gridkind"] = f"p:{c['pdtype']}/{c['playout']},w:{c['wdtype']}/{c['wlayout']}"
+
+
+def _small_case(ctx: Ctx, typ, dim, n, nc, L):
+    """Round 4, class 20: sizes 1 and 2 and pairwise different numbers of points / centres / rows."""
+    rng = ctx.rng
+    c = _case(ctx, typ, dim)
+    for k in ("pdtype", "playout", "wdtype", "wlayout", "gridkind", "extreme", "atol", "unshifted"):
+        c.pop(k, None)
+    c.update(L=L, pts=[[_r(rng.uniform(-1.5, 1.5)) for _ in range(dim)] for _ in range(n)], w=[_r(rng.uniform(-0.5, 1.5)) for _ in range(n)],
+             f=[_r(rng.uniform(-2, 2)) for _ in range(n)], cs=[[_r(rng.uniform(-1, 1)) for _ in range(dim)] for _ in range(nc)],
+             fdtype="float64", cdtype="float64", cs_is_points=False, reuse_grid=False, shape=f"N{n}xM{nc}xL{L}")
+    return c
+
+
+def _lattice_case(ctx: Ctx, typ, dim, L):
+    """Round 4, classes 19 / 12: a lattice grid (points {-1, -1/2, 0, 1/2, 1}^dim, a random subset that keeps the origin)
+    with centres exactly ON grid points — the origin, two other lattice points — and one off the lattice: every centred
+    point set contains r = 0, points on the poles (+-z axis), on the x and y axes and in the coordinate planes, where the
+    spherical coordinates and the solid harmonics the moments consume are special."""
+    rng = ctx.rng
+    c = _case(ctx, typ, dim)
+    for k in ("pdtype", "playout", "wdtype", "wlayout", "gridkind", "extreme", "atol", "unshifted"):
+        c.pop(k, None)
+    vals = [-1.0, -0.5, 0.0, 0.5, 1.0]
+    allp = [list(p_) for p_ in itertools.product(vals, repeat=dim)]
+    keep = [p_ for p_ in allp if not any(p_) or rng.random() < (0.25 if dim == 3 else 0.6)]
+    for ax in range(dim):                                # the poles / axis points next to the origin always
+        for sgn in (1.0, -1.0):
+            q = [0.0] * dim
+            q[ax] = sgn * 0.5
+            if q not in keep:
+                keep.append(q)
+    rng.shuffle(keep)
+    n = len(keep)
+    cs = [[0.0] * dim, list(rng.choice(keep)), list(rng.choice(keep)), [_r(rng.uniform(-1, 1)) for _ in range(dim)]]
+    c.update(L=L, pts=keep, w=[_r(rng.uniform(-0.5, 1.5)) for _ in range(n)], f=[_r(rng.uniform(-2, 2)) for _ in range(n)], cs=cs,
+             fdtype="float64", cdtype="float64", cs_is_points=False, reuse_grid=False, lattice=True)
     return c
 
 
@@ -435,6 +567,25 @@ def _extreme(ctx: Ctx, c, kind=None):
         c["extreme"] = f"near:{eps:g}"
 
 
+def _systematic_cases(ctx: Ctx):
+    """Round 4, in every run: (a) lattice grids with centres exactly on grid points for all four types (dimension 1-3 for
+    Cartesian / radial), (b) sizes 1 and 2 and pairwise different numbers of points / centres / rows (the returned matrix is
+    rows x centres: a missing or doubled transposition shows when they differ, a wrong axis when one of them is 1)."""
+    out = []
+    for k, ty in enumerate(TYPES):
+        for j, L in enumerate((1, 2, 4) if ctx.thorough or True else (2,)):
+            dim = 3 if ty in ("pure", "pure-radial") else (3, 2, 1)[(j + k + ctx.seed) % 3]
+            out.append(_lattice_case(ctx, ty, dim, L))
+        out.append(_lattice_case(ctx, ty, 3, 6 if ty != "cartesian" else 3))
+    shapes = [(1, 1), (1, 2), (2, 1), (2, 2), (1, 3), (2, 3), (3, 2), (3, 1), (4, 2), (2, 5)]
+    for k, ty in enumerate(TYPES):
+        for j, (n, nc) in enumerate(shapes):
+            L = (j + k + ctx.seed) % 3 + (1 if ty == "pure-radial" else 0)
+            dim = 3 if ty in ("pure", "pure-radial") else (3, 1, 2)[(j + ctx.seed) % 3]
+            out.append(_small_case(ctx, ty, dim, n, nc, L))
+    return out
+
+
 def _arr(a):
     """an integer array of one or two dimensions in the driver's notation (`1 <ivec>` | `2 <imat>`)"""
     a = np.asarray(a)
@@ -493,431 +644,473 @@ def _read_imat(t: Tokens):
 
 def corr(ctx: Ctx):
     ut = importlib.import_module("grid.utils")
-    # 1. order generator, every type x dim x order
-    reqs = [(ty, dim, l) for ty in TYPES for dim in (0, 1, 2, 3, 4) for l in range(0, 9)]
-    ans = driver_batch([f"C14.horton {ty} {dim} {l}" for ty, dim, l in reqs])
-    gans = driver_batch([f"C14.gen-horton {ty} {dim} {l}" for ty, dim, l in reqs])
-
-    def impl_horton(l, ty, dim):
-        """-> (answer in the model's notation, answer in the notation of the generated program)"""
-        try:
-            o = np.asarray(ut.generate_orders_horton_order(l, ty, dim))
-            o2 = o.reshape(-1, 1) if o.ndim == 1 and ty == "radial" else o
-            if o2.size == 0:
-                return "ok 0 0", "ok " + _arr(o)
-            res = "ok " + " ".join([str(o2.shape[0]), str(o2.shape[1])] + [str(int(x)) for x in o2.ravel()]), "ok " + _arr(o)
-            if isinstance(o, np.ndarray) and o.flags.writeable:
-                o[...] = -9                 # the returned array is the caller's: edited in place, later calls must not see it
-            return res
-        except ValueError:
-            return "value-error", "value-error"
-        except Exception as e:                      # anything else is not an accepted outcome
-            return f"raised {type(e).__name__}: {e}", f"raised {type(e).__name__}: {e}"
-
-    first = {}
-    for (ty, dim, l), a, ga in zip(reqs, ans, gans):
-        impl, gimpl = impl_horton(l, ty, dim)
-        first[(ty, dim, l)] = impl
-        ctx.count(["gen-horton", ty, dim, l], nontrivial=(l >= 2 or impl == "value-error"), tag="gen:horton")
-        if gimpl != ga:
-            ctx.fail("corr", f"utils.generate_orders_horton_order:{ty}:generated", f"generate_orders_horton_order({l}, {ty}, {dim}): implementation {gimpl}, "
-                     f"translated program {ga}", witness=dict(order=l, type=ty, dim=dim, impl=gimpl, generated=ga))
-        ctx.count(["horton", ty, dim, l], nontrivial=(l >= 2 or impl == "value-error"), tag=f"horton:{ty}:" + ("reject" if impl == "value-error" else f"dim{dim}" if ty == "cartesian" else "ok"))
-        am = a if not a.startswith("ok 0 ") else "ok 0 0"
-        if impl != am:
-            ctx.fail("corr", f"utils.generate_orders_horton_order:{ty}", f"generate_orders_horton_order({l}, {ty}, {dim}): implementation {impl}, model {a}",
-                     witness=dict(order=l, type=ty, dim=dim, impl=impl, model=a))
-    # the same requests again in another order (a result remembered under too coarse a key would show), and the
-    # rejected arguments: an unknown type name, an order that is not a Python int
-    again = list(reqs)
-    ctx.rng.shuffle(again)
-    for ty, dim, l in again + list(reversed(reqs)):
-        impl, _ = impl_horton(l, ty, dim)
-        ctx.count(["horton-again", ty, dim, l], nontrivial=False, tag="horton:repeated")
-        if impl != first[(ty, dim, l)]:
-            ctx.fail("corr", f"utils.generate_orders_horton_order:{ty}:state", f"generate_orders_horton_order({l}, {ty}, {dim}) answered {first[(ty, dim, l)]} "
-                     f"the first time and {impl} later in the same process", witness=dict(order=l, type=ty, dim=dim))
-    bad = [("spherical", 3, 2), ("Cartesian", 3, 1), ("", 2, 0), ("pure_radial", 3, 2)]
-    for (ty, dim, l), ga in zip(bad, driver_batch([f"C14.gen-horton {ty or '_'} {dim} {l}" for ty, dim, l in bad])):
-        impl, _ = impl_horton(l, ty or "_", dim)
-        ctx.count(["gen-horton", ty, dim, l], nontrivial=True, tag="gen:horton:unknown-type")
-        if impl != ga:
-            ctx.fail("corr", "utils.generate_orders_horton_order:unknown-type", f"type {ty!r}: implementation {impl}, translated program {ga}")
-    # 2. the (l, m) -> row arithmetic against the position in the library's own stacked pure list
-    stacked = [list(map(int, r)) for l in range(8) for r in ut.generate_orders_horton_order(l, "pure", 3)]
-    lm = [(l, m) for l in range(8) for m in range(-l, l + 1)]
-    ans = driver_batch([f"C14.rowindex {l} {m}" for l, m in lm])
-    for (l, m), a in zip(lm, ans):
-        ctx.count(["rowindex", l, m], nontrivial=l >= 1, tag="rowindex:" + ("m>0" if m > 0 else "m<=0"))
-        if a != f"ok {stacked.index([l, m])}":
-            ctx.fail("corr", "basegrid.moments:row-index", f"row of (l,m)=({l},{m}) in the library's Horton-2 list is {stacked.index([l, m])}, model arithmetic {a}")
-    # 3. moments
-    ncase = ctx.n(600, 10000)
-    cases = []
-    for ty in TYPES:                      # small, systematic part
-        for L in range(0, 4):
-            for dim in (1, 2, 3):
-                c = _case(ctx, ty, dim)
-                c["L"] = L
-                cases.append(c)
-    while len(cases) < ncase:
-        cases.append(_case(ctx, prev=cases[-1]))
-    # malformed: wrong f length, wrong centre dimension
-    extra = []
-    for _ in range(ctx.n(12, 100)):
-        c = _case(ctx)
-        c["cs_is_points"] = False
-        if ctx.rng.random() < 0.5:
-            c["f"] = c["f"] + [1.0]
-            c["_bad"] = "f-length"
-        else:
-            c["cs"] = [row + [0.5] for row in c["cs"]]
-            c["_bad"] = "centre-dim"
-        extra.append(c)
-    lines = []
-    for c in cases + extra:
-        c["_tabs"] = _tabs(c) if "_bad" not in c else []
-        lines.append(_line(c, c["_tabs"]))
-    ans = driver_batch(lines)
-    for c, a in zip(cases + extra, ans):
-        pub = {k: c[k] for k in PUB_KEYS if k in c}
-        tag, vals, orders = _impl_moments(c)
-        c["_tag"] = tag
-        rejected = tag != "ok"
-        ctx.count(["moments", pub], nontrivial=(c["L"] >= 2 or len(c["cs"]) >= 2 or c["dim"] < 3 or rejected),
-                  tag=f"moments:{c['typ']}:" + (c.get("_bad") or ("reject" if rejected else f"dim{c['dim']}")))
-        for k in VARIANT_KEYS:
-            if c.get(k) not in (None, False, "float64", "c", "int", "kw"):
-                ctx.distribution[f"variant:{k}={c[k]}"] = ctx.distribution.get(f"variant:{k}={c[k]}", 0) + 1
-        if len(c["cs"]) >= 5:
-            ctx.distribution["variant:centres>=5"] = ctx.distribution.get("variant:centres>=5", 0) + 1
-        t = Tokens(a)
-        mt = t.tok()
-        if mt != tag:
-            ctx.fail("corr", f"basegrid.moments:{c['typ']}", f"moments(L={c['L']}, {c['typ']}, dim={c['dim']}, {c.get('_bad', '')}): implementation {tag}, model {a[:60]}", witness=pub)
-            continue
-        if tag != "ok":
-            continue
-        mvals = t.fmat()
-        morders = _read_imat(t)
-        if morders != orders:
-            ctx.fail("corr", f"basegrid.moments:{c['typ']}:orders", f"returned order list differs: implementation {orders[:8]}…, model {morders[:8]}…", witness=pub)
-            continue
-        if len(mvals) != len(vals) or any(len(a_) != len(b_) for a_, b_ in zip(mvals, vals)):
-            ctx.fail("corr", f"basegrid.moments:{c['typ']}:shape", f"shape differs: implementation {np.shape(vals)}, model {np.shape(mvals)}", witness=pub)
-            continue
-        c["_vals"], c["_scale"] = vals, [[0.0] * len(c["cs"]) for _ in orders]
-        for k, order in enumerate(orders):
-            for ci, cen in enumerate(c["cs"]):
-                _, scale = direct(c["typ"], order, c["pts"], c["w"], c["f"], cen)
-                c["_scale"][k][ci] = scale
-                if not close(vals[k][ci], mvals[k][ci], rtol=1e-10, scale=scale + 1e-300, atol=c.get("atol", 0.0)):
-                    ctx.fail("corr", f"basegrid.moments:{c['typ']}", f"entry (row {k} = {order}, centre {ci}): implementation {vals[k][ci]!r}, model {mvals[k][ci]!r}",
-                             witness=dict(pub, row=k, order=order, centre=ci))
-    # 3a. the translated programs of Grid.moments (Gen/Moments.lean) on the same calls: the statements before the
-    #     loop over the centres (guards, reshape guard, list of orders, dim, stacked order array) see the arrays
-    #     through their shapes; the index block of the pure-radial branch sees the order array.
     bg = importlib.import_module("grid.basegrid")
-    tm = importlib.import_module("harness.translate.moments")
-    try:
-        idx_src = tm.index_block_source()
-    except Exception as e:
-        idx_src = None
-        ctx.fail("corr", "translator:moments", f"the translator cannot carry the current source: {type(e).__name__}: {e}")
-    stacked = [list(map(int, r)) for l in range(8) for r in ut.generate_orders_horton_order(l, "pure", 3)]
-    gcases = list(cases + extra)
-    # further rejected argument kinds that only the translated guards model
-    for _ in range(ctx.n(16, 120)):
-        c = _case(ctx)
-        c.update(cs_is_points=False, twice=False, call="kw", cdtype="float64")
-        c["_bad"] = ctx.rng.choice(["f-2d", "centres-1d", "orders-float", "orders-int16", "centres-3d"])
-        gcases.append(c)
-    glines, flines = [], []
-    for c in gcases:
-        g, L, cs, f = build_args(c, bg.Grid)
-        bad = c.get("_bad")
-        if bad == "f-2d":
-            f = f.reshape(-1, 1)
-        elif bad == "centres-1d":
-            cs = cs[0]
-        elif bad == "centres-3d":
-            cs = cs[None, :, :]
-        elif bad == "orders-float":
-            L, c["otype"] = float(c["L"]), "float"
-        elif bad == "orders-int16":
-            L, c["otype"] = np.int16(c["L"]), "np.int16"
-        if "_tag" not in c:
+    parts = _Parts(ctx, "corr")
+    with parts("orders"):
+        # 1. order generator, every type x dim x order
+        reqs = [(ty, dim, l) for ty in TYPES for dim in (0, 1, 2, 3, 4) for l in range(0, 9)]
+        ans = driver_batch([f"C14.horton {ty} {dim} {l}" for ty, dim, l in reqs])
+        gans = driver_batch([f"C14.gen-horton {ty} {dim} {l}" for ty, dim, l in reqs])
+
+        def impl_horton(l, ty, dim):
+            """-> (answer in the model's notation, answer in the notation of the generated program)"""
             try:
-                g.moments(L, cs, f, type_mom=c["typ"])
-                c["_tag"] = "ok"
+                o = np.asarray(ut.generate_orders_horton_order(l, ty, dim))
+                o2 = o.reshape(-1, 1) if o.ndim == 1 and ty == "radial" else o
+                if o2.size == 0:
+                    return "ok 0 0", "ok " + _arr(o)
+                res = "ok " + " ".join([str(o2.shape[0]), str(o2.shape[1])] + [str(int(x)) for x in o2.ravel()]), "ok " + _arr(o)
+                if isinstance(o, np.ndarray) and o.flags.writeable:
+                    o[...] = -9                 # the returned array is the caller's: edited in place, later calls must not see it
+                return res
             except ValueError:
-                c["_tag"] = "value-error"
-            except TypeError:
-                c["_tag"] = "type-error"
-            except Exception as e:
-                c["_tag"] = f"raised {type(e).__name__}: {e}"
-        c["_shapes"] = (list(g.points.shape), list(np.shape(cs)), list(np.shape(f)))
-        P, csA = np.asarray(g.points, dtype=float), np.asarray(cs, dtype=float)
-        c["_ret"] = "default" if c.get("call") == "no-orders" and not bad else "1"
-        flines.append(f"C14.gen-moments {'default' if c.get('call') == 'default-type' and not bad else c['typ']} {int(c['L'])} {c.get('otype', 'int')} {c['_ret']} "
-                      f"{_ivec(P.shape)} {fmat((P.reshape(-1, 1) if P.ndim == 1 else P).tolist())} {fvec(np.asarray(g.weights, dtype=float))} "
-                      f"{_ivec(csA.shape)} {fmat(csA.tolist()) if csA.ndim == 2 else '0 0'} {_ivec(np.shape(f))} {fvec(np.asarray(f, dtype=float).ravel())} "
-                      f"{len(c.get('_tabs', []))}" + "".join(" " + fmat(t) for t in c.get("_tabs", [])))
-        glines.append(f"C14.gen-orders {_ivec(g.points.shape)} {_ivec(np.shape(cs))} {_ivec(np.shape(f))} {int(c['L'])} {c.get('otype', 'int')} {c['typ']}")
-    gans = driver_batch(glines)
-    idx_lines, idx_cases = [], []
-    for c, a in zip(gcases, gans):
-        wit = dict(typ=c["typ"], L=c["L"], shapes=c["_shapes"], otype=c.get("otype", "int"), bad=c.get("_bad"))
-        ctx.count(["gen-orders", wit], nontrivial=True, tag="gen:orders:" + (c.get("_bad") or ("ok" if c["_tag"] == "ok" else "reject")))
-        t = Tokens(a)
-        gt = t.tok()
-        if c["_tag"] == "ok":
-            want = f"ok {c['_shapes'][0][1] if len(c['_shapes'][0]) == 2 else 1} " + _ivec(range(1 if c["typ"] == "pure-radial" else 0, c["L"] + 1)) + " " + c["_orders_arr"]
-            if a.strip() != want:
-                ctx.fail("corr", "basegrid.moments:generated-orders", f"the implementation accepted the call and returned the order array [{c['_orders_arr'][:60]}…]; "
-                         f"the translated statements give {a[:90]}", witness=wit)
+                return "value-error", "value-error"
+            except Exception as e:                      # anything else is not an accepted outcome
+                return f"raised {type(e).__name__}: {e}", f"raised {type(e).__name__}: {e}"
+
+        first = {}
+        for (ty, dim, l), a, ga in zip(reqs, ans, gans):
+            impl, gimpl = impl_horton(l, ty, dim)
+            first[(ty, dim, l)] = impl
+            ctx.count(["gen-horton", ty, dim, l], nontrivial=(l >= 2 or impl == "value-error"), tag="gen:horton")
+            if gimpl != ga:
+                ctx.fail("corr", f"utils.generate_orders_horton_order:{ty}:generated", f"generate_orders_horton_order({l}, {ty}, {dim}): implementation {gimpl}, "
+                         f"translated program {ga}", witness=dict(order=l, type=ty, dim=dim, impl=gimpl, generated=ga))
+            ctx.count(["horton", ty, dim, l], nontrivial=(l >= 2 or impl == "value-error"), tag=f"horton:{ty}:" + ("reject" if impl == "value-error" else f"dim{dim}" if ty == "cartesian" else "ok"))
+            am = a if not a.startswith("ok 0 ") else "ok 0 0"
+            if impl != am:
+                ctx.fail("corr", f"utils.generate_orders_horton_order:{ty}", f"generate_orders_horton_order({l}, {ty}, {dim}): implementation {impl}, model {a}",
+                         witness=dict(order=l, type=ty, dim=dim, impl=impl, model=a))
+        # round 4, class 15: `dim` omitted / given as the default / by keyword, everything by keyword
+        for ty in TYPES:
+            for l in range(0, 5):
+                ref = np.asarray(ut.generate_orders_horton_order(l, ty, 3))
+                forms = {"dim omitted": lambda: ut.generate_orders_horton_order(l, ty), "dim=3": lambda: ut.generate_orders_horton_order(l, ty, dim=3),
+                         "all keywords": lambda: ut.generate_orders_horton_order(order=l, type_ord=ty, dim=3),
+                         "keywords shuffled": lambda: ut.generate_orders_horton_order(dim=3, type_ord=ty, order=l)}
+                for name, call in forms.items():
+                    ctx.count(["horton-form", ty, l, name], nontrivial=False, tag="horton:call-form")
+                    try:
+                        got = np.asarray(call())
+                        okf = got.shape == ref.shape and np.array_equal(got, ref)
+                    except Exception as e:
+                        got, okf = f"raised {type(e).__name__}: {e}", False
+                    if not okf:
+                        ctx.fail("corr", f"utils.generate_orders_horton_order:{ty}:call-form", f"generate_orders_horton_order({l}, {ty!r}) with {name}: {got if isinstance(got, str) else got.tolist()[:6]}, "
+                                 f"with dim=3 positionally {ref.tolist()[:6]}", witness=dict(order=l, type=ty, form=name))
+        # the same requests again in another order (a result remembered under too coarse a key would show), and the
+        # rejected arguments: an unknown type name, an order that is not a Python int
+        again = list(reqs)
+        ctx.rng.shuffle(again)
+        for ty, dim, l in again + list(reversed(reqs)):
+            impl, _ = impl_horton(l, ty, dim)
+            ctx.count(["horton-again", ty, dim, l], nontrivial=False, tag="horton:repeated")
+            if impl != first[(ty, dim, l)]:
+                ctx.fail("corr", f"utils.generate_orders_horton_order:{ty}:state", f"generate_orders_horton_order({l}, {ty}, {dim}) answered {first[(ty, dim, l)]} "
+                         f"the first time and {impl} later in the same process", witness=dict(order=l, type=ty, dim=dim))
+        bad = [("spherical", 3, 2), ("Cartesian", 3, 1), ("", 2, 0), ("pure_radial", 3, 2)]
+        for (ty, dim, l), ga in zip(bad, driver_batch([f"C14.gen-horton {ty or '_'} {dim} {l}" for ty, dim, l in bad])):
+            impl, _ = impl_horton(l, ty or "_", dim)
+            ctx.count(["gen-horton", ty, dim, l], nontrivial=True, tag="gen:horton:unknown-type")
+            if impl != ga:
+                ctx.fail("corr", "utils.generate_orders_horton_order:unknown-type", f"type {ty!r}: implementation {impl}, translated program {ga}")
+        # 2. the (l, m) -> row arithmetic against the position in the library's own stacked pure list
+        stacked = [list(map(int, r)) for l in range(8) for r in ut.generate_orders_horton_order(l, "pure", 3)]
+        lm = [(l, m) for l in range(8) for m in range(-l, l + 1)]
+        ans = driver_batch([f"C14.rowindex {l} {m}" for l, m in lm])
+        for (l, m), a in zip(lm, ans):
+            ctx.count(["rowindex", l, m], nontrivial=l >= 1, tag="rowindex:" + ("m>0" if m > 0 else "m<=0"))
+            if a != f"ok {stacked.index([l, m])}":
+                ctx.fail("corr", "basegrid.moments:row-index", f"row of (l,m)=({l},{m}) in the library's Horton-2 list is {stacked.index([l, m])}, model arithmetic {a}")
+    with parts("moments"):
+        # 3. moments
+        ncase = ctx.n(600, 10000)
+        cases = []
+        for ty in TYPES:                      # small, systematic part
+            for L in range(0, 4):
+                for dim in (1, 2, 3):
+                    c = _case(ctx, ty, dim)
+                    c["L"] = L
+                    cases.append(c)
+        cases += _systematic_cases(ctx)
+        while len(cases) < ncase:
+            cases.append(_case(ctx, prev=cases[-1]))
+        # malformed: wrong f length, wrong centre dimension
+        extra = []
+        for _ in range(ctx.n(12, 100)):
+            c = _case(ctx)
+            c["cs_is_points"] = False
+            if ctx.rng.random() < 0.5:
+                c["f"] = c["f"] + [1.0]
+                c["_bad"] = "f-length"
+            else:
+                c["cs"] = [row + [0.5] for row in c["cs"]]
+                c["_bad"] = "centre-dim"
+            extra.append(c)
+        lines = []
+        for c in cases + extra:
+            c["_tabs"] = _tabs(c) if "_bad" not in c else []
+            lines.append(_line(c, c["_tabs"]))
+        ans = driver_batch(lines)
+        for c, a in zip(cases + extra, ans):
+            pub = {k: c[k] for k in PUB_KEYS if k in c}
+            tag, vals, orders = _impl_moments(c)
+            c["_tag"] = tag
+            rejected = tag != "ok"
+            ctx.count(["moments", pub], nontrivial=(c["L"] >= 2 or len(c["cs"]) >= 2 or c["dim"] < 3 or rejected),
+                      tag=f"moments:{c['typ']}:" + (c.get("_bad") or ("reject" if rejected else f"dim{c['dim']}")))
+            for k in VARIANT_KEYS:
+                if c.get(k) not in (None, False, "float64", "c", "int", "kw"):
+                    ctx.distribution[f"variant:{k}={c[k]}"] = ctx.distribution.get(f"variant:{k}={c[k]}", 0) + 1
+            if len(c["cs"]) >= 5:
+                ctx.distribution["variant:centres>=5"] = ctx.distribution.get("variant:centres>=5", 0) + 1
+            t = Tokens(a)
+            mt = t.tok()
+            if mt != tag:
+                ctx.fail("corr", f"basegrid.moments:{c['typ']}", f"moments(L={c['L']}, {c['typ']}, dim={c['dim']}, {c.get('_bad', '')}): implementation {tag}, model {a[:60]}", witness=pub)
                 continue
-            if c["typ"] == "pure-radial" and idx_src is not None:
-                idx_lines.append("C14.gen-indices " + c["_orders_arr"])
-                idx_cases.append(c)
-        elif gt == "ok":
-            # the translated prefix accepts; the implementation may still reject later, inside the loop over the
-            # centres: only the pure types on points that are not three-dimensional (convert_cart_to_sph)
-            if not (c["typ"] in ("pure", "pure-radial") and c["_shapes"][0][1:] != [3] and c["_tag"] == "value-error"):
-                ctx.fail("corr", "basegrid.moments:generated-guards", f"implementation {c['_tag']}, the translated guards accept ({a[:60]})", witness=wit)
-        elif gt != c["_tag"]:
-            ctx.fail("corr", "basegrid.moments:generated-guards", f"implementation {c['_tag']}, translated guards {gt}", witness=wit)
-    seen = set()
-    for c, a in zip(idx_cases, driver_batch(idx_lines)):
-        if c["L"] in seen and ctx.rng.random() < 0.7:
-            continue
-        seen.add(c["L"])
-        orders = np.array([list(map(int, r)) for r in _read_imat(Tokens(c["_orders_arr"][2:]))])
-        ns = {"np": np, "all_orders": orders.copy()}
-        exec(idx_src, ns)                                            # the very statements of the library
-        lib = [int(x) for x in ns["indices"]]
-        ref = [stacked.index([int(l), int(m)]) for _, l, m in orders]  # position in the library's Horton-2 list
-        ctx.count(["gen-indices", c["L"]], nontrivial=c["L"] >= 2, tag="gen:indices")
-        if a.strip() != "ok " + _ivec(lib) or lib != ref:
-            ctx.fail("corr", "basegrid.moments:row-index:generated", f"L={c['L']}: index statements of the library give {lib[:12]}…, translated program {a[:60]}…, "
-                     f"rows of (l,m) in the Horton-2 list {ref[:12]}…", witness=dict(L=c["L"]))
-    # 3a'. the whole of Grid.moments as generated (Gen/MomentsNum.lean: the statements before the loop, the loop over the
-    #      centres with every branch of the type, np.array(integrals).T, return_orders; defaults of the signature) on the
-    #      same calls: values, order array, rejections
-    for c, a in zip(gcases, driver_batch(flines)):
-        wit = dict({k: c[k] for k in PUB_KEYS if k in c}, bad=c.get("_bad"))
-        ctx.count(["gen-moments", wit], nontrivial=True, tag="gen:moments:" + (c.get("_bad") or (c["typ"] if c["_tag"] == "ok" else "reject")))
-        t = Tokens(a)
-        gt = t.tok()
-        if gt != c["_tag"]:
-            ctx.fail("corr", "basegrid.moments:generated", f"moments(L={c['L']}, {c['typ']}, {c.get('_bad', '')}): implementation {c['_tag']}, the translated function {a[:60]}", witness=wit)
-            continue
-        if gt != "ok" or "_vals" not in c:
-            continue
-        gvals = t.fmat()
-        rest = " ".join(t.t[t.i:])
-        if rest != ("0" if c["_ret"] == "default" else "1 " + c["_orders_arr"]):
-            ctx.fail("corr", "basegrid.moments:generated:orders", f"order array / return_orders: implementation [{c['_orders_arr'][:50]}…] (return_orders {c['_ret']}), "
-                     f"translated function [{rest[:50]}…]", witness=wit)
-            continue
-        if np.shape(gvals) != np.shape(c["_vals"]):
-            ctx.fail("corr", "basegrid.moments:generated:shape", f"shape: implementation {np.shape(c['_vals'])}, translated function {np.shape(gvals)}", witness=wit)
-            continue
-        for k in range(len(gvals)):
-            for ci in range(len(gvals[k])):
-                if not close(c["_vals"][k][ci], gvals[k][ci], rtol=1e-10, scale=c["_scale"][k][ci] + 1e-300, atol=c.get("atol", 0.0)):
-                    ctx.fail("corr", f"basegrid.moments:generated:{c['typ']}", f"entry (row {k}, centre {ci}): implementation {c['_vals'][k][ci]!r}, translated function {gvals[k][ci]!r}",
-                             witness=dict(wit, row=k, centre=ci))
-    degs = [(ty, L) for ty in TYPES for L in range(0, 7) if not (ty == "pure-radial" and L == 0)]
-    for (ty, L), a in zip(degs, driver_batch([f"C14.gen-degree {_ivec(range(1 if ty == 'pure-radial' else 0, L + 1))}" for ty, L in degs])):
-        ctx.count(["gen-degree", ty, L], nontrivial=False, tag="gen:degree")
-        if a.strip() != f"ok {L}":
-            ctx.fail("corr", "basegrid.moments:solid-degree", f"degree handed to solid_harmonics for L={L} ({ty}): translated expression gives {a}")
-    # 3b. one-dimensional point arrays (OneDGrid, points of shape (N,))
-    flat, lines = [], []
-    for i in range(ctx.n(60, 1200)):
-        ty = TYPES[i % 4] if i < 16 else ctx.rng.choice(["cartesian", "radial", "cartesian", "radial", "pure", "pure-radial"])
-        n, nc, L = ctx.rng.randint(1, 10), ctx.rng.randint(1, 4), (i // 4 if i < 16 else ctx.rng.randint(0, 6))
-        c = dict(typ=ty, L=L, pts=sorted(_r(ctx.rng.uniform(-1.5, 1.5)) for _ in range(n)), w=[_r(ctx.rng.uniform(-0.5, 1.5)) for _ in range(n)],
-                 f=[_r(ctx.rng.uniform(-2, 2)) for _ in range(n)], cs=[[_r(ctx.rng.uniform(-1, 1))] for _ in range(nc)])
-        if ctx.rng.random() < 0.2:
-            c["cs"][0] = [c["pts"][0]]
-        c["cdtype"] = "float64"
-        if ctx.rng.random() < 0.15:
-            c["cs"], c["cdtype"] = [[float(ctx.rng.randint(-1, 1))] for _ in range(nc)], ctx.rng.choice(["int64", "int32"])
-        c["otype"] = ctx.rng.choice(["int"] * 3 + ["np.int32", "np.int64"])
-        c["fdtype"] = ctx.rng.choice(["float64"] * 4 + ["float32", "int64"])
-        if c["fdtype"] == "float32":
-            c["f"] = [float(np.float32(x)) for x in c["f"]]
-        elif c["fdtype"] == "int64":
-            c["f"] = [float(ctx.rng.randint(-3, 4)) for _ in range(n)]
-        c["twice"] = ctx.rng.random() < 0.3
-        flat.append(c)
-        lines.append(f"C14.moments-flat {ty} {L} {fvec(c['pts'])} {fvec(c['w'])} {fvec(c['f'])} {fmat(c['cs'])}")
-    ans = driver_batch(lines)
-    for c, a in zip(flat, ans):
+            if tag != "ok":
+                continue
+            mvals = t.fmat()
+            morders = _read_imat(t)
+            if morders != orders:
+                ctx.fail("corr", f"basegrid.moments:{c['typ']}:orders", f"returned order list differs: implementation {orders[:8]}…, model {morders[:8]}…", witness=pub)
+                continue
+            if len(mvals) != len(vals) or any(len(a_) != len(b_) for a_, b_ in zip(mvals, vals)):
+                ctx.fail("corr", f"basegrid.moments:{c['typ']}:shape", f"shape differs: implementation {np.shape(vals)}, model {np.shape(mvals)}", witness=pub)
+                continue
+            c["_vals"], c["_scale"] = vals, [[0.0] * len(c["cs"]) for _ in orders]
+            for k, order in enumerate(orders):
+                for ci, cen in enumerate(c["cs"]):
+                    _, scale = direct(c["typ"], order, c["pts"], c["w"], c["f"], cen)
+                    c["_scale"][k][ci] = scale
+                    if not close(vals[k][ci], mvals[k][ci], rtol=1e-10, scale=scale + 1e-300, atol=c.get("atol", 0.0)):
+                        ctx.fail("corr", f"basegrid.moments:{c['typ']}", f"entry (row {k} = {order}, centre {ci}): implementation {vals[k][ci]!r}, model {mvals[k][ci]!r}",
+                                 witness=dict(pub, row=k, order=order, centre=ci))
+        # 3a. the translated programs of Grid.moments (Gen/Moments.lean) on the same calls: the statements before the
+        #     loop over the centres (guards, reshape guard, list of orders, dim, stacked order array) see the arrays
+        #     through their shapes; the index block of the pure-radial branch sees the order array.
+        bg = importlib.import_module("grid.basegrid")
+        tm = importlib.import_module("harness.translate.moments")
         try:
-            c1 = dict(c, w=c["w"], reuse_grid=False)
-            vals, orders = call_moments(c1, bg.OneDGrid)
-            impl = "ok"
-        except IndexError:
-            impl = "index-error"
-        except ValueError:
-            impl = "value-error"
+            idx_src = tm.index_block_source()
         except Exception as e:
-            impl = f"raised-{type(e).__name__}:{e}"
-        ctx.count(["moments-flat", c], nontrivial=True, tag=f"moments:points-1d:{c['typ']}:" + ("ok" if impl == "ok" else "reject"))
-        t = Tokens(a)
-        if t.tok() != impl:
-            ctx.fail("corr", "basegrid.moments:points-1d", f"OneDGrid.moments(L={c['L']}, {c['typ']}): implementation {impl}, model {a[:40]}", witness=c)
-            continue
-        if impl != "ok":
-            continue
-        mvals, morders = t.fmat(), _read_imat(t)
-        orders = np.asarray(orders)
-        orders = [[int(x) for x in row] for row in (orders.reshape(-1, 1) if orders.ndim == 1 else orders)]
-        if orders != morders or np.shape(vals) != np.shape(mvals):
-            ctx.fail("corr", "basegrid.moments:points-1d", f"orders/shape differ: implementation {orders} {np.shape(vals)}, model {morders} {np.shape(mvals)}", witness=c)
-            continue
-        for k, order in enumerate(orders):
-            for ci, cen in enumerate(c["cs"]):
-                _, scale = direct(c["typ"], order, [[x] for x in c["pts"]], c["w"], c["f"], cen)
-                if not close(float(vals[k][ci]), mvals[k][ci], rtol=1e-10, scale=scale + 1e-300):
-                    ctx.fail("corr", "basegrid.moments:points-1d", f"entry ({k}, {ci}): implementation {float(vals[k][ci])!r}, model {mvals[k][ci]!r}", witness=c)
-    # 4. dipole
-    nd = ctx.n(40, 800)
-    dcases, lines = [], []
-    for _ in range(nd):
-        na = ctx.rng.randint(1, 4)
-        n = ctx.rng.randint(1, 15)
-        d = dict(pts=[[_r(ctx.rng.uniform(-2, 2)) for _ in range(3)] for _ in range(n)],
-                 w=[_r(ctx.rng.uniform(0.0, 1.5)) for _ in range(n)],
-                 dens=[_r(ctx.rng.uniform(0.0, 2.0)) for _ in range(n)],
-                 coords=[[_r(ctx.rng.uniform(-1.5, 1.5)) for _ in range(3)] for _ in range(na)],
-                 charges=[ctx.rng.choice([ctx.rng.randint(1, 18), ctx.rng.randint(1, 82), 82, 1]) for _ in range(na)])
-        d["masses"] = [float(ut.isotopic_masses[z]) for z in d["charges"]]
-        # container kind / dtype of the arguments: lists and integer arrays are accepted by the helper
-        d["container"] = ctx.rng.choice(["array"] * 3 + ["list", "int32-charges", "float-charges", "int-coords", "readonly"])
-        if d["container"] == "int-coords":
-            d["coords"] = [[float(ctx.rng.randint(-2, 2)) for _ in range(3)] for _ in range(na)]
-        d["twice"] = ctx.rng.random() < 0.3
-        dcases.append(d)
-        lines.append(f"C14.dipole 3 {fmat(d['pts'])} {fvec(d['w'])} {fvec(d['dens'])} {fmat(d['coords'])} {fvec(d['charges'])} {fvec(d['masses'])}")
-    ans = driver_batch(lines)
-    bg = importlib.import_module("grid.basegrid")
-    for d, a in zip(dcases, ans):
-        try:
-            got = [float(x) for x in call_dipole(d, bg.Grid, ut.dipole_moment_of_molecule)]
-        except Exception as e:
-            ctx.fail("corr", "utils.dipole_moment_of_molecule", f"raised {type(e).__name__}: {e} (arguments given as {d['container']})", witness=d)
-            continue
-        ctx.count(["dipole", {k: d[k] for k in ("pts", "w", "dens", "coords", "charges", "container", "twice")}], nontrivial=len(d["charges"]) >= 2,
-                  tag=f"dipole:{len(d['charges'])}atoms:{d['container']}")
-        t = Tokens(a)
-        if t.tok() != "ok":
-            ctx.fail("corr", "utils.dipole_moment_of_molecule", f"model answered {a}", witness=d)
-            continue
-        mv = t.fvec()
-        scale = sum(abs(z) for z in d["charges"]) * 4 + sum(abs(x * y) for x, y in zip(d["w"], d["dens"])) * 4
-        if len(mv) != len(got) or not all(close(x, y, rtol=1e-11, scale=scale) for x, y in zip(got, mv)):
-            ctx.fail("corr", "utils.dipole_moment_of_molecule", f"implementation {got}, model {mv}", witness=d)
-        d["_got"], d["_scale"] = got, scale
-    _corr_generated_rest(ctx, bg, ut, dcases)
+            idx_src = None
+            ctx.fail("corr", "translator:moments", f"the translator cannot carry the current source: {type(e).__name__}: {e}")
+        stacked = [list(map(int, r)) for l in range(8) for r in ut.generate_orders_horton_order(l, "pure", 3)]
+        gcases = list(cases + extra)
+        # further rejected argument kinds that only the translated guards model
+        for _ in range(ctx.n(16, 120)):
+            c = _case(ctx)
+            c.update(cs_is_points=False, twice=False, call="kw", cdtype="float64")
+            c["_bad"] = ctx.rng.choice(["f-2d", "centres-1d", "orders-float", "orders-int16", "centres-3d"])
+            gcases.append(c)
+        glines, flines = [], []
+        for c in gcases:
+            g, L, cs, f = build_args(c, bg.Grid)
+            bad = c.get("_bad")
+            if bad == "f-2d":
+                f = f.reshape(-1, 1)
+            elif bad == "centres-1d":
+                cs = cs[0]
+            elif bad == "centres-3d":
+                cs = cs[None, :, :]
+            elif bad == "orders-float":
+                L, c["otype"] = float(c["L"]), "float"
+            elif bad == "orders-int16":
+                L, c["otype"] = np.int16(c["L"]), "np.int16"
+            if "_tag" not in c:
+                try:
+                    g.moments(L, cs, f, type_mom=c["typ"])
+                    c["_tag"] = "ok"
+                except ValueError:
+                    c["_tag"] = "value-error"
+                except TypeError:
+                    c["_tag"] = "type-error"
+                except Exception as e:
+                    c["_tag"] = f"raised {type(e).__name__}: {e}"
+            c["_shapes"] = (list(g.points.shape), list(np.shape(cs)), list(np.shape(f)))
+            P, csA = np.asarray(g.points, dtype=float), np.asarray(cs, dtype=float)
+            c["_ret"] = "default" if c.get("call") == "no-orders" and not bad else "0" if c.get("call") == "explicit-defaults" and not bad else "1"
+            flines.append(f"C14.gen-moments {'default' if c.get('call') == 'default-type' and not bad else c['typ']} {int(c['L'])} {c.get('otype', 'int')} {c['_ret']} "
+                          f"{_ivec(P.shape)} {fmat((P.reshape(-1, 1) if P.ndim == 1 else P).tolist())} {fvec(np.asarray(g.weights, dtype=float))} "
+                          f"{_ivec(csA.shape)} {fmat(csA.tolist()) if csA.ndim == 2 else '0 0'} {_ivec(np.shape(f))} {fvec(np.asarray(f, dtype=float).ravel())} "
+                          f"{len(c.get('_tabs', []))}" + "".join(" " + fmat(t) for t in c.get("_tabs", [])))
+            glines.append(f"C14.gen-orders {_ivec(g.points.shape)} {_ivec(np.shape(cs))} {_ivec(np.shape(f))} {int(c['L'])} {c.get('otype', 'int')} {c['typ']}")
+        gans = driver_batch(glines)
+        idx_lines, idx_cases = [], []
+        for c, a in zip(gcases, gans):
+            wit = dict(typ=c["typ"], L=c["L"], shapes=c["_shapes"], otype=c.get("otype", "int"), bad=c.get("_bad"))
+            ctx.count(["gen-orders", wit], nontrivial=True, tag="gen:orders:" + (c.get("_bad") or ("ok" if c["_tag"] == "ok" else "reject")))
+            t = Tokens(a)
+            gt = t.tok()
+            if c["_tag"] == "ok":
+                want = f"ok {c['_shapes'][0][1] if len(c['_shapes'][0]) == 2 else 1} " + _ivec(range(1 if c["typ"] == "pure-radial" else 0, c["L"] + 1)) + " " + c["_orders_arr"]
+                if a.strip() != want:
+                    ctx.fail("corr", "basegrid.moments:generated-orders", f"the implementation accepted the call and returned the order array [{c['_orders_arr'][:60]}…]; "
+                             f"the translated statements give {a[:90]}", witness=wit)
+                    continue
+                if c["typ"] == "pure-radial" and idx_src is not None:
+                    idx_lines.append("C14.gen-indices " + c["_orders_arr"])
+                    idx_cases.append(c)
+            elif gt == "ok":
+                # the translated prefix accepts; the implementation may still reject later, inside the loop over the
+                # centres: only the pure types on points that are not three-dimensional (convert_cart_to_sph)
+                if not (c["typ"] in ("pure", "pure-radial") and c["_shapes"][0][1:] != [3] and c["_tag"] == "value-error"):
+                    ctx.fail("corr", "basegrid.moments:generated-guards", f"implementation {c['_tag']}, the translated guards accept ({a[:60]})", witness=wit)
+            elif gt != c["_tag"]:
+                ctx.fail("corr", "basegrid.moments:generated-guards", f"implementation {c['_tag']}, translated guards {gt}", witness=wit)
+        seen = set()
+        for c, a in zip(idx_cases, driver_batch(idx_lines)):
+            if c["L"] in seen and ctx.rng.random() < 0.7:
+                continue
+            seen.add(c["L"])
+            orders = np.array([list(map(int, r)) for r in _read_imat(Tokens(c["_orders_arr"][2:]))])
+            ns = {"np": np, "all_orders": orders.copy()}
+            exec(idx_src, ns)                                            # the very statements of the library
+            lib = [int(x) for x in ns["indices"]]
+            ref = [stacked.index([int(l), int(m)]) for _, l, m in orders]  # position in the library's Horton-2 list
+            ctx.count(["gen-indices", c["L"]], nontrivial=c["L"] >= 2, tag="gen:indices")
+            if a.strip() != "ok " + _ivec(lib) or lib != ref:
+                ctx.fail("corr", "basegrid.moments:row-index:generated", f"L={c['L']}: index statements of the library give {lib[:12]}…, translated program {a[:60]}…, "
+                         f"rows of (l,m) in the Horton-2 list {ref[:12]}…", witness=dict(L=c["L"]))
+        # 3a'. the whole of Grid.moments as generated (Gen/MomentsNum.lean: the statements before the loop, the loop over the
+        #      centres with every branch of the type, np.array(integrals).T, return_orders; defaults of the signature) on the
+        #      same calls: values, order array, rejections
+        for c, a in zip(gcases, driver_batch(flines)):
+            wit = dict({k: c[k] for k in PUB_KEYS if k in c}, bad=c.get("_bad"))
+            ctx.count(["gen-moments", wit], nontrivial=True, tag="gen:moments:" + (c.get("_bad") or (c["typ"] if c["_tag"] == "ok" else "reject")))
+            t = Tokens(a)
+            gt = t.tok()
+            if gt != c["_tag"]:
+                ctx.fail("corr", "basegrid.moments:generated", f"moments(L={c['L']}, {c['typ']}, {c.get('_bad', '')}): implementation {c['_tag']}, the translated function {a[:60]}", witness=wit)
+                continue
+            if gt != "ok" or "_vals" not in c:
+                continue
+            gvals = t.fmat()
+            rest = " ".join(t.t[t.i:])
+            if rest != ("0" if c["_ret"] in ("default", "0") else "1 " + c["_orders_arr"]):
+                ctx.fail("corr", "basegrid.moments:generated:orders", f"order array / return_orders: implementation [{c['_orders_arr'][:50]}…] (return_orders {c['_ret']}), "
+                         f"translated function [{rest[:50]}…]", witness=wit)
+                continue
+            if np.shape(gvals) != np.shape(c["_vals"]):
+                ctx.fail("corr", "basegrid.moments:generated:shape", f"shape: implementation {np.shape(c['_vals'])}, translated function {np.shape(gvals)}", witness=wit)
+                continue
+            for k in range(len(gvals)):
+                for ci in range(len(gvals[k])):
+                    if not close(c["_vals"][k][ci], gvals[k][ci], rtol=1e-10, scale=c["_scale"][k][ci] + 1e-300, atol=c.get("atol", 0.0)):
+                        ctx.fail("corr", f"basegrid.moments:generated:{c['typ']}", f"entry (row {k}, centre {ci}): implementation {c['_vals'][k][ci]!r}, translated function {gvals[k][ci]!r}",
+                                 witness=dict(wit, row=k, centre=ci))
+        degs = [(ty, L) for ty in TYPES for L in range(0, 7) if not (ty == "pure-radial" and L == 0)]
+        for (ty, L), a in zip(degs, driver_batch([f"C14.gen-degree {_ivec(range(1 if ty == 'pure-radial' else 0, L + 1))}" for ty, L in degs])):
+            ctx.count(["gen-degree", ty, L], nontrivial=False, tag="gen:degree")
+            if a.strip() != f"ok {L}":
+                ctx.fail("corr", "basegrid.moments:solid-degree", f"degree handed to solid_harmonics for L={L} ({ty}): translated expression gives {a}")
+    with parts("points-1d"):
+        # 3b. one-dimensional point arrays (OneDGrid, points of shape (N,))
+        flat, lines = [], []
+        for i in range(ctx.n(60, 1200)):
+            ty = TYPES[i % 4] if i < 16 else ctx.rng.choice(["cartesian", "radial", "cartesian", "radial", "pure", "pure-radial"])
+            n, nc, L = ctx.rng.randint(1, 10), ctx.rng.randint(1, 4), (i // 4 if i < 16 else ctx.rng.randint(0, 6))
+            c = dict(typ=ty, L=L, pts=sorted(_r(ctx.rng.uniform(-1.5, 1.5)) for _ in range(n)), w=[_r(ctx.rng.uniform(-0.5, 1.5)) for _ in range(n)],
+                     f=[_r(ctx.rng.uniform(-2, 2)) for _ in range(n)], cs=[[_r(ctx.rng.uniform(-1, 1))] for _ in range(nc)])
+            if ctx.rng.random() < 0.2:
+                c["cs"][0] = [c["pts"][0]]
+            c["cdtype"] = "float64"
+            if ctx.rng.random() < 0.15:
+                c["cs"], c["cdtype"] = [[float(ctx.rng.randint(-1, 1))] for _ in range(nc)], ctx.rng.choice(["int64", "int32"])
+            c["otype"] = ctx.rng.choice(["int"] * 3 + ["np.int32", "np.int64"])
+            c["fdtype"] = ctx.rng.choice(["float64"] * 4 + ["float32", "int64"])
+            if c["fdtype"] == "float32":
+                c["f"] = [float(np.float32(x)) for x in c["f"]]
+            elif c["fdtype"] == "int64":
+                c["f"] = [float(ctx.rng.randint(-3, 4)) for _ in range(n)]
+            c["twice"] = ctx.rng.random() < 0.3
+            if ctx.rng.random() < 0.25:               # round 4, class 14: the arrays held by the OneDGrid object
+                c["pdtype"], c["wdtype"] = ctx.rng.choice(["float32", "float64", "int64"]), ctx.rng.choice(["float32", "float64"])
+                c["playout"], c["wlayout"] = ctx.rng.choice(GRID_LAYOUTS), ctx.rng.choice(GRID_LAYOUTS)
+                if c["pdtype"] == "float32":
+                    c["pts"] = sorted(set(float(np.float32(x)) for x in c["pts"]))
+                elif c["pdtype"] == "int64":
+                    c["pts"] = sorted(set(float(round(2 * x)) for x in c["pts"]))
+                k_ = len(c["pts"])
+                c["w"], c["f"] = c["w"][:k_], c["f"][:k_]
+                if c["wdtype"] == "float32":
+                    c["w"] = [float(np.float32(x)) for x in c["w"]]
+            flat.append(c)
+            lines.append(f"C14.moments-flat {ty} {L} {fvec(c['pts'])} {fvec(c['w'])} {fvec(c['f'])} {fmat(c['cs'])}")
+        ans = driver_batch(lines)
+        for c, a in zip(flat, ans):
+            try:
+                c1 = dict(c, w=c["w"], reuse_grid=False)
+                vals, orders = call_moments(c1, bg.OneDGrid)
+                impl = "ok"
+            except IndexError:
+                impl = "index-error"
+            except ValueError:
+                impl = "value-error"
+            except Exception as e:
+                impl = f"raised-{type(e).__name__}:{e}"
+            ctx.count(["moments-flat", c], nontrivial=True, tag=f"moments:points-1d:{c['typ']}:" + ("ok" if impl == "ok" else "reject"))
+            t = Tokens(a)
+            if t.tok() != impl:
+                ctx.fail("corr", "basegrid.moments:points-1d", f"OneDGrid.moments(L={c['L']}, {c['typ']}): implementation {impl}, model {a[:40]}", witness=c)
+                continue
+            if impl != "ok":
+                continue
+            mvals, morders = t.fmat(), _read_imat(t)
+            orders = np.asarray(orders)
+            orders = [[int(x) for x in row] for row in (orders.reshape(-1, 1) if orders.ndim == 1 else orders)]
+            if orders != morders or np.shape(vals) != np.shape(mvals):
+                ctx.fail("corr", "basegrid.moments:points-1d", f"orders/shape differ: implementation {orders} {np.shape(vals)}, model {morders} {np.shape(mvals)}", witness=c)
+                continue
+            for k, order in enumerate(orders):
+                for ci, cen in enumerate(c["cs"]):
+                    _, scale = direct(c["typ"], order, [[x] for x in c["pts"]], c["w"], c["f"], cen)
+                    if not close(float(vals[k][ci]), mvals[k][ci], rtol=1e-10, scale=scale + 1e-300):
+                        ctx.fail("corr", "basegrid.moments:points-1d", f"entry ({k}, {ci}): implementation {float(vals[k][ci])!r}, model {mvals[k][ci]!r}", witness=c)
+    with parts("dipole"):
+        # 4. dipole
+        nd = ctx.n(40, 800)
+        dcases, lines = [], []
+        for _ in range(nd):
+            na = ctx.rng.randint(1, 4)
+            n = ctx.rng.randint(1, 15)
+            d = dict(pts=[[_r(ctx.rng.uniform(-2, 2)) for _ in range(3)] for _ in range(n)],
+                     w=[_r(ctx.rng.uniform(0.0, 1.5)) for _ in range(n)],
+                     dens=[_r(ctx.rng.uniform(0.0, 2.0)) for _ in range(n)],
+                     coords=[[_r(ctx.rng.uniform(-1.5, 1.5)) for _ in range(3)] for _ in range(na)],
+                     charges=[ctx.rng.choice([ctx.rng.randint(1, 18), ctx.rng.randint(1, 82), 82, 1]) for _ in range(na)])
+            d["masses"] = [float(ut.isotopic_masses[z]) for z in d["charges"]]
+            # container kind / dtype of the arguments: lists and integer arrays are accepted by the helper
+            d["container"] = ctx.rng.choice(["array"] * 3 + ["list", "int32-charges", "float-charges", "int-coords", "readonly", "keywords"])
+            if d["container"] == "int-coords":
+                d["coords"] = [[float(ctx.rng.randint(-2, 2)) for _ in range(3)] for _ in range(na)]
+            d["twice"] = ctx.rng.random() < 0.3
+            dcases.append(d)
+            lines.append(f"C14.dipole 3 {fmat(d['pts'])} {fvec(d['w'])} {fvec(d['dens'])} {fmat(d['coords'])} {fvec(d['charges'])} {fvec(d['masses'])}")
+        ans = driver_batch(lines)
+        bg = importlib.import_module("grid.basegrid")
+        for d, a in zip(dcases, ans):
+            try:
+                got = [float(x) for x in call_dipole(d, bg.Grid, ut.dipole_moment_of_molecule)]
+            except Exception as e:
+                ctx.fail("corr", "utils.dipole_moment_of_molecule", f"raised {type(e).__name__}: {e} (arguments given as {d['container']})", witness=d)
+                continue
+            ctx.count(["dipole", {k: d[k] for k in ("pts", "w", "dens", "coords", "charges", "container", "twice")}], nontrivial=len(d["charges"]) >= 2,
+                      tag=f"dipole:{len(d['charges'])}atoms:{d['container']}")
+            t = Tokens(a)
+            if t.tok() != "ok":
+                ctx.fail("corr", "utils.dipole_moment_of_molecule", f"model answered {a}", witness=d)
+                continue
+            mv = t.fvec()
+            scale = sum(abs(z) for z in d["charges"]) * 4 + sum(abs(x * y) for x, y in zip(d["w"], d["dens"])) * 4
+            if len(mv) != len(got) or not all(close(x, y, rtol=1e-11, scale=scale) for x, y in zip(got, mv)):
+                ctx.fail("corr", "utils.dipole_moment_of_molecule", f"implementation {got}, model {mv}", witness=d)
+            d["_got"], d["_scale"] = got, scale
+        _corr_generated_rest(ctx, bg, ut, dcases)
+    parts.finish()
 
 
 def _corr_generated_rest(ctx: Ctx, bg, ut, dcases):
     """The other programs of Gen/MomentsNum.lean next to the implementation: the dipole helper (with the mass table as
     regenerated), the table itself entry by entry (bit-exact), Grid.integrate, MultiDomainGrid.moments."""
     rng = ctx.rng
-    # 4a. dipole_moment_of_molecule as generated: masses come from the generated table, moments from the generated Grid.moments
-    lines = [f"C14.gen-dipole {_ivec([len(d['pts']), 3])} {fmat(d['pts'])} {fvec(d['w'])} {fvec(d['dens'])} {fmat(d['coords'])} {_ivec(d['charges'])}" for d in dcases]
-    for d, a in zip(dcases, driver_batch(lines)):
-        if "_got" not in d:
-            continue
-        ctx.count(["gen-dipole", {k: d[k] for k in ("pts", "w", "dens", "coords", "charges")}], nontrivial=len(d["charges"]) >= 2, tag="gen:dipole")
-        t = Tokens(a)
-        if t.tok() != "ok":
-            ctx.fail("corr", "utils.dipole_moment_of_molecule:generated", f"the translated function answered {a}", witness=d)
-            continue
-        mv = t.fvec()
-        if len(mv) != len(d["_got"]) or not all(close(x, y, rtol=1e-11, scale=d["_scale"]) for x, y in zip(d["_got"], mv)):
-            ctx.fail("corr", "utils.dipole_moment_of_molecule:generated", f"implementation {d['_got']}, translated function {mv}", witness=d)
-    # 4b. isotopic_masses: every key of the library's dictionary and the integers around its range
-    keys = sorted(set(ut.isotopic_masses) | set(range(-2, max(ut.isotopic_masses) + 4)))
-    for z, a in zip(keys, driver_batch([f"C14.gen-mass {z}" for z in keys])):
-        want = ("ok " + f2b(ut.isotopic_masses[z])) if z in ut.isotopic_masses else "key-error"
-        ctx.count(["gen-mass", z], nontrivial=z in ut.isotopic_masses, tag="gen:mass")
-        if a.strip() != want:
-            ctx.fail("corr", "utils.isotopic_masses:generated", f"isotopic_masses[{z}]: implementation {ut.isotopic_masses.get(z)!r} ({want}), regenerated table {a}", witness=dict(Z=z))
-    # 4c. Grid.integrate: 0-4 arguments, arrays of the right / a wrong length, 2-D arrays, objects that are not arrays
-    icases, lines = [], []
-    for it in range(ctx.n(60, 600)):
-        n = rng.randint(1, 8)
-        w = [_r(rng.uniform(-0.5, 1.5)) for _ in range(n)]
-        k = 0 if it % 15 == 14 else rng.randint(1, 4)
-        args = []
-        for _ in range(k):
-            r = rng.random()
-            if r < 0.8:
-                args.append(("nd", [n], [_r(rng.uniform(-2, 2)) for _ in range(n)]))
-            elif r < 0.86:
-                m = rng.choice([n + 1, max(n - 1, 0)])
-                args.append(("nd", [m], [_r(rng.uniform(-2, 2)) for _ in range(m)]))
-            elif r < 0.92:
-                args.append(("nd", [n, 1], [_r(rng.uniform(-2, 2)) for _ in range(n)]))
-            elif r < 0.96:
-                args.append(("nd", [], [1.5]))                  # a 0-d array
-            else:
-                args.append(("other", None, [_r(rng.uniform(-2, 2)) for _ in range(n)]))   # a Python list
-        scale = rng.choice([1.0] * 4 + [1e-300, 1e-12, 1e12])
-        if scale != 1.0 and args and args[0][0] == "nd":
-            args[0] = ("nd", args[0][1], [x * scale for x in args[0][2]])
-        icases.append(dict(w=w, args=args))
-        lines.append(f"C14.gen-integrate {n} {fvec(w)} {k}" + "".join(" other" if a[0] == "other" else f" nd {_ivec(a[1])} {fvec(a[2])}" for a in args))
-    for c, a in zip(icases, driver_batch(lines)):
-        g = bg.Grid(np.zeros((len(c["w"]), 3)), np.array(c["w"]))
-        pyargs = [list(x[2]) if x[0] == "other" else np.array(x[2], dtype=float).reshape(x[1]) for x in c["args"]]
-        try:
-            got, tag = float(g.integrate(*pyargs)), "ok"
-        except ValueError:
-            got, tag = None, "value-error"
-        except TypeError:
-            got, tag = None, "type-error"
-        except Exception as e:
-            got, tag = None, f"raised {type(e).__name__}: {e}"
-        ctx.count(["gen-integrate", c], nontrivial=len(c["args"]) != 1, tag="gen:integrate:" + ("ok" if tag == "ok" else "reject"))
-        t = Tokens(a)
-        if t.tok() != tag:
-            ctx.fail("corr", "basegrid.integrate:generated", f"Grid.integrate with {len(c['args'])} argument(s): implementation {tag}, translated function {a[:40]}", witness=c)
-            continue
-        if tag != "ok":
-            continue
-        gv = b2f(t.tok())
-        terms = [wi * math.prod(x[2][i] for x in c["args"]) for i, wi in enumerate(c["w"])]
-        want, sc = math.fsum(terms), math.fsum(abs(x) for x in terms)
-        if not (close(got, gv, rtol=1e-12, scale=sc + 1e-300) and close(got, want, rtol=1e-12, scale=sc + 1e-300)):
-            ctx.fail("corr", "basegrid.integrate:generated", f"implementation {got!r}, translated function {gv!r}, sum of w_i prod_k a_k[i] {want!r}", witness=c)
-    # 4d. MultiDomainGrid.moments: documented as not implemented
-    try:
-        ng = importlib.import_module("grid.ngrid")
-        od = importlib.import_module("grid.onedgrid")
-        md = ng.MultiDomainGrid([od.GaussLegendre(3), od.GaussLegendre(4)])
-        calls = [("int", "default", "default", lambda: md.moments(1, np.zeros((1, 2)), np.ones(12))),
-                 ("int", "radial", "1", lambda: md.moments(2, np.zeros((1, 2)), np.ones(12), type_mom="radial", return_orders=True)),
-                 ("int", "pure", "0", lambda: md.moments(0, np.zeros((2, 2)), np.ones(12), "pure", False))]
-        for (ot, ty, ret, call), a in zip(calls, driver_batch([f"C14.gen-multidomain {L} {ty} {ret}" for L, (_, ty, ret, _) in zip((1, 2, 0), calls)])):
+    parts = _Parts(ctx, "corr")
+    with parts("gen-dipole"):
+        # 4a. dipole_moment_of_molecule as generated: masses come from the generated table, moments from the generated Grid.moments
+        lines = [f"C14.gen-dipole {_ivec([len(d['pts']), 3])} {fmat(d['pts'])} {fvec(d['w'])} {fvec(d['dens'])} {fmat(d['coords'])} {_ivec(d['charges'])}" for d in dcases]
+        for d, a in zip(dcases, driver_batch(lines)):
+            if "_got" not in d:
+                continue
+            ctx.count(["gen-dipole", {k: d[k] for k in ("pts", "w", "dens", "coords", "charges")}], nontrivial=len(d["charges"]) >= 2, tag="gen:dipole")
+            t = Tokens(a)
+            if t.tok() != "ok":
+                ctx.fail("corr", "utils.dipole_moment_of_molecule:generated", f"the translated function answered {a}", witness=d)
+                continue
+            mv = t.fvec()
+            if len(mv) != len(d["_got"]) or not all(close(x, y, rtol=1e-11, scale=d["_scale"]) for x, y in zip(d["_got"], mv)):
+                ctx.fail("corr", "utils.dipole_moment_of_molecule:generated", f"implementation {d['_got']}, translated function {mv}", witness=d)
+    with parts("gen-masses"):
+        # 4b. isotopic_masses: every key of the library's dictionary and the integers around its range
+        keys = sorted(set(ut.isotopic_masses) | set(range(-2, max(ut.isotopic_masses) + 4)))
+        for z, a in zip(keys, driver_batch([f"C14.gen-mass {z}" for z in keys])):
+            want = ("ok " + f2b(ut.isotopic_masses[z])) if z in ut.isotopic_masses else "key-error"
+            ctx.count(["gen-mass", z], nontrivial=z in ut.isotopic_masses, tag="gen:mass")
+            if a.strip() != want:
+                ctx.fail("corr", "utils.isotopic_masses:generated", f"isotopic_masses[{z}]: implementation {ut.isotopic_masses.get(z)!r} ({want}), regenerated table {a}", witness=dict(Z=z))
+    with parts("gen-integrate"):
+        # 4c. Grid.integrate: 0-4 arguments, arrays of the right / a wrong length, 2-D arrays, objects that are not arrays
+        icases, lines = [], []
+        for it in range(ctx.n(60, 600)):
+            n = rng.randint(1, 8)
+            w = [_r(rng.uniform(-0.5, 1.5)) for _ in range(n)]
+            k = 0 if it % 15 == 14 else rng.randint(1, 4)
+            args = []
+            for _ in range(k):
+                r = rng.random()
+                if r < 0.8:
+                    args.append(("nd", [n], [_r(rng.uniform(-2, 2)) for _ in range(n)]))
+                elif r < 0.86:
+                    m = rng.choice([n + 1, max(n - 1, 0)])
+                    args.append(("nd", [m], [_r(rng.uniform(-2, 2)) for _ in range(m)]))
+                elif r < 0.92:
+                    args.append(("nd", [n, 1], [_r(rng.uniform(-2, 2)) for _ in range(n)]))
+                elif r < 0.96:
+                    args.append(("nd", [], [1.5]))                  # a 0-d array
+                else:
+                    args.append(("other", None, [_r(rng.uniform(-2, 2)) for _ in range(n)]))   # a Python list
+            scale = rng.choice([1.0] * 4 + [1e-300, 1e-12, 1e12])
+            if scale != 1.0 and args and args[0][0] == "nd":
+                args[0] = ("nd", args[0][1], [x * scale for x in args[0][2]])
+            icases.append(dict(w=w, args=args))
+            lines.append(f"C14.gen-integrate {n} {fvec(w)} {k}" + "".join(" other" if a[0] == "other" else f" nd {_ivec(a[1])} {fvec(a[2])}" for a in args))
+        for c, a in zip(icases, driver_batch(lines)):
+            g = bg.Grid(np.zeros((len(c["w"]), 3)), np.array(c["w"]))
+            pyargs = [list(x[2]) if x[0] == "other" else np.array(x[2], dtype=float).reshape(x[1]) for x in c["args"]]
             try:
-                call()
-                tag = "ok"
-            except NotImplementedError:
-                tag = "not-implemented-error"
+                got, tag = float(g.integrate(*pyargs)), "ok"
+            except ValueError:
+                got, tag = None, "value-error"
+            except TypeError:
+                got, tag = None, "type-error"
             except Exception as e:
-                tag = f"raised {type(e).__name__}: {e}"
-            ctx.count(["gen-multidomain", ty, ret], nontrivial=False, tag="gen:multidomain")
-            if a.strip() != tag:
-                ctx.fail("corr", "ngrid.MultiDomainGrid.moments:generated", f"implementation {tag}, translated function {a}")
-    except ImportError:
-        pass
+                got, tag = None, f"raised {type(e).__name__}: {e}"
+            ctx.count(["gen-integrate", c], nontrivial=len(c["args"]) != 1, tag="gen:integrate:" + ("ok" if tag == "ok" else "reject"))
+            t = Tokens(a)
+            if t.tok() != tag:
+                ctx.fail("corr", "basegrid.integrate:generated", f"Grid.integrate with {len(c['args'])} argument(s): implementation {tag}, translated function {a[:40]}", witness=c)
+                continue
+            if tag != "ok":
+                continue
+            gv = b2f(t.tok())
+            terms = [wi * math.prod(x[2][i] for x in c["args"]) for i, wi in enumerate(c["w"])]
+            want, sc = math.fsum(terms), math.fsum(abs(x) for x in terms)
+            if not (close(got, gv, rtol=1e-12, scale=sc + 1e-300) and close(got, want, rtol=1e-12, scale=sc + 1e-300)):
+                ctx.fail("corr", "basegrid.integrate:generated", f"implementation {got!r}, translated function {gv!r}, sum of w_i prod_k a_k[i] {want!r}", witness=c)
+    with parts("gen-multidomain"):
+        # 4d. MultiDomainGrid.moments: documented as not implemented
+        try:
+            ng = importlib.import_module("grid.ngrid")
+            od = importlib.import_module("grid.onedgrid")
+            md = ng.MultiDomainGrid([od.GaussLegendre(3), od.GaussLegendre(4)])
+            calls = [("int", "default", "default", lambda: md.moments(1, np.zeros((1, 2)), np.ones(12))),
+                     ("int", "radial", "1", lambda: md.moments(2, np.zeros((1, 2)), np.ones(12), type_mom="radial", return_orders=True)),
+                     ("int", "pure", "0", lambda: md.moments(0, np.zeros((2, 2)), np.ones(12), "pure", False))]
+            for (ot, ty, ret, call), a in zip(calls, driver_batch([f"C14.gen-multidomain {L} {ty} {ret}" for L, (_, ty, ret, _) in zip((1, 2, 0), calls)])):
+                try:
+                    call()
+                    tag = "ok"
+                except NotImplementedError:
+                    tag = "not-implemented-error"
+                except Exception as e:
+                    tag = f"raised {type(e).__name__}: {e}"
+                ctx.count(["gen-multidomain", ty, ret], nontrivial=False, tag="gen:multidomain")
+                if a.strip() != tag:
+                    ctx.fail("corr", "ngrid.MultiDomainGrid.moments:generated", f"implementation {tag}, translated function {a}")
+        except ImportError:
+            pass
+    parts.finish()
 
 
 SNIPPET = """import warnings; warnings.filterwarnings('ignore')
@@ -961,13 +1154,46 @@ sc = 1 + (sum(d['charges']) + math.fsum(abs(a * b) for a, b in zip(d['w'], d['de
 assert len(got) == 3 and all(abs(float(a) - b) <= 1e-9 * (sc + abs(b)) for a, b in zip(got, want)), f'dipole {{list(got)}}, nuclear minus electronic first moments {{want}}'
 """
 
+REJECT_SRC = """
+def rejected_call(g, case):
+    \"\"\"a call that must end in an exception (round 4, class 18)\"\"\"
+    kind = case['reject']
+    cs, f, L, typ = np.array(case['cs'], dtype=float), np.array(case['f'], dtype=float), case['L'], case['typ']
+    if kind == 'f-length':
+        f = np.append(f, 1.0)
+    elif kind == 'centre-dim':
+        cs = np.hstack([cs, np.ones((len(cs), 1))])
+    elif kind == 'pure-radial-0':
+        typ, L = 'pure-radial', 0
+    elif kind == 'unknown-type':
+        typ = 'spherical'
+    elif kind == 'orders-float':
+        L = float(L)
+    elif kind == 'f-2d':
+        f = f.reshape(-1, 1)
+    elif kind == 'centres-1d':
+        cs = cs[0]
+    elif kind == 'pure-dim':
+        typ, L = 'pure', max(L, 1)
+    return g.moments(L, cs, f, type_mom=typ, return_orders=True)
+"""
+exec("import numpy as np\n" + REJECT_SRC, _ns)
+rejected_call = _ns["rejected_call"]
+
 HISTORY_SNIPPET = """import warnings; warnings.filterwarnings('ignore')
 import math, numpy as np
 from grid.basegrid import Grid
 {ref_src}
+""" + REJECT_SRC.replace("{", "{{").replace("}", "}}") + """
 history = {history!r}          # successive calls on ONE grid object
 g = Grid(np.array(history[0]['pts'], dtype=float), np.array(history[0]['w'], dtype=float))
 for step, case in enumerate(history):
+    if case.get('reject'):
+        try:
+            rejected_call(g, case)
+        except Exception:
+            continue
+        raise AssertionError(f'call {{step}}: a bad argument ({{case["reject"]}}) was accepted')
     vals, orders = g.moments(case['L'], np.array(case['cs'], dtype=float), np.array(case['f'], dtype=float), type_mom=case['typ'], return_orders=True)
     orders = np.asarray(orders); orders = orders.reshape(-1, 1) if orders.ndim == 1 else orders
     want_orders = ref_all_orders(case['L'], case['typ'], case['dim'])
@@ -976,6 +1202,8 @@ for step, case in enumerate(history):
     assert isinstance(alt, np.ndarray) and alt.shape == np.shape(vals) and np.array_equal(alt, np.asarray(vals), equal_nan=True), f'call {{step}}: without return_orders the call returns a {{type(alt).__name__}} with other values than with it'
     i0, s0 = float(g.integrate(np.array(case['f'], dtype=float))), sum(abs(a * b) for a, b in zip(case['w'], case['f']))
     assert abs(i0 - math.fsum(a * b for a, b in zip(case['w'], case['f']))) <= 1e-9 * (s0 + 1e-300), f'call {{step}}: integrate(f) = {{i0!r}} is not sum w_i f_i'
+    fresh = Grid(np.array(case['pts'], dtype=float), np.array(case['w'], dtype=float)).moments(case['L'], np.array(case['cs'], dtype=float), np.array(case['f'], dtype=float), type_mom=case['typ'])
+    assert np.array_equal(np.asarray(fresh), np.asarray(vals), equal_nan=True), f'call {{step}}: the answer differs from the one of a fresh grid object'
     for k, order in enumerate(want_orders):
         for ci, c in enumerate(case['cs']):
             want, scale = direct(case['typ'], order, case['pts'], case['w'], case['f'], c)
@@ -1004,14 +1232,28 @@ def _history_probe(ctx: Ctx, typ=None, dim=None, L=None):
     c2 = dict(c0, f=[_r(rng.uniform(-2, 2)) for _ in range(n)])
     other = "radial" if c0["typ"] != "radial" else "cartesian"
     c3 = dict(c0, typ=other, L=c0["L"] + 1)
-    history = [c0, c1, c2, c3, c0]
+    # round 4, class 18: calls that end in an exception in between (bad argument of every kind) must leave no trace
+    rej = lambda kind: dict(c0, reject=kind)
+    kinds = ["f-length", "centre-dim", "pure-radial-0", "unknown-type", "orders-float", "f-2d", "centres-1d"]
+    rng.shuffle(kinds)
+    if c0["dim"] != 3:
+        kinds.insert(0, "pure-dim")               # rejected inside the loop over the centres (convert_cart_to_sph)
+    history = [c0, rej(kinds[0]), c1, rej(kinds[1]), rej(kinds[2]), c2, c3, rej(kinds[3]), c0]
     g = bg.Grid(np.array(c0["pts"], dtype=float), np.array(c0["w"], dtype=float))
-    keep = ("typ", "L", "dim", "pts", "w", "f", "cs")
+    keep = ("typ", "L", "dim", "pts", "w", "f", "cs", "reject")
+    history = [{k: h[k] for k in keep if k in h} for h in history]
     for step, c in enumerate(history):
+        if c.get("reject"):
+            try:
+                rejected_call(g, c)
+            except Exception:
+                continue
+            ctx.fail("oracle", f"basegrid.moments:{c['typ']}:accepts:{c['reject']}", f"a call with a bad argument ({c['reject']}) was accepted",
+                     witness=dict(history=history[:step + 1]), snippet=HISTORY_SNIPPET.format(ref_src=REF_SRC, history=history[:step + 1]))
+            return
         def report(what):
             ctx.fail("oracle", f"basegrid.moments:{c['typ']}:state", f"call {step} of a sequence of calls on one grid object ({[h['typ'] for h in history[:step + 1]]}): {what}",
-                     witness=dict(history=[{k: h[k] for k in keep} for h in history[:step + 1]]),
-                     snippet=HISTORY_SNIPPET.format(ref_src=REF_SRC, history=[{k: h[k] for k in keep} for h in history[:step + 1]]))
+                     witness=dict(history=history[:step + 1]), snippet=HISTORY_SNIPPET.format(ref_src=REF_SRC, history=history[:step + 1]))
         try:
             vals, orders = g.moments(c["L"], np.array(c["cs"], dtype=float), np.array(c["f"], dtype=float), type_mom=c["typ"], return_orders=True)
         except Exception as e:
@@ -1035,6 +1277,15 @@ def _history_probe(ctx: Ctx, typ=None, dim=None, L=None):
             return
         if not close(i0, math.fsum(a * b for a, b in zip(c["w"], c["f"])), rtol=1e-9, scale=sum(abs(a * b) for a, b in zip(c["w"], c["f"])) + 1e-300):
             report(f"integrate(f) = {i0!r} is not sum w_i f_i")
+            return
+        try:
+            fresh = bg.Grid(np.array(c["pts"], dtype=float), np.array(c["w"], dtype=float)).moments(
+                c["L"], np.array(c["cs"], dtype=float), np.array(c["f"], dtype=float), type_mom=c["typ"])
+        except Exception as e:
+            report(f"the same call on a fresh grid object raised {type(e).__name__}: {e}")
+            return
+        if not np.array_equal(np.asarray(fresh), np.asarray(vals), equal_nan=True):
+            report("after the earlier calls (accepted and rejected) the answer differs from the one of a fresh grid object")
             return
         for k, order in enumerate(want_orders):
             for ci, cen in enumerate(c["cs"]):
@@ -1331,6 +1582,139 @@ def _underflow_info(ctx: Ctx):
     except Exception as e:
         ctx.info(f"underflow probe raised {type(e).__name__}: {e}")
 
+# ----------------------------------------------------------------------------------------
+# round 4, class 16 (+ 12 / 19): ONE function-value array object — a float64 view into a larger caller array — handed to
+# every entry point in turn on a lattice grid with centres exactly on grid points: all four moment types (twice, in two
+# orders), integrate(f), integrate(f, f), moments with the grid's own weights array as f and its own points array as
+# centres, the dipole helper with the same array as the density.  Every answer against a reference computed from a
+# pristine copy; afterwards the array, the bytes around the view, the centres and the grid are unchanged.
+# ----------------------------------------------------------------------------------------
+SHARED_SRC = """
+def shared_scenario(data, Grid, dipole_moment_of_molecule):
+    pts, w, fvals, cs = data['pts'], data['w'], data['f'], data['cs']
+    n = len(pts)
+    big = np.full(n + 7, 12345.678)
+    big[3:3 + n] = fvals
+    big0 = big.copy()
+    f = big[3:3 + n]                                   # the caller's view: np.asarray(f) is f itself
+    centers = np.array(cs, dtype=float)
+    g = Grid(np.array(pts, dtype=float), np.array(w, dtype=float))
+    def unchanged(where):
+        assert np.array_equal(big, big0), f'{where}: the function-value array of the caller (or the bytes around the view) was modified: {big.tolist()} instead of {big0.tolist()}'
+        assert np.array_equal(centers, np.array(cs, dtype=float)), f'{where}: the centres were modified'
+        assert np.array_equal(np.asarray(g.points), np.array(pts, dtype=float)) and np.array_equal(np.asarray(g.weights), np.array(w, dtype=float)), f'{where}: the grid was modified'
+    def check(typ, L, farr, flist, carr, clist, where):
+        vals, orders = g.moments(L, carr, farr, type_mom=typ, return_orders=True)
+        orders = np.asarray(orders); orders = orders.reshape(-1, 1) if orders.ndim == 1 else orders
+        want_orders = ref_all_orders(L, typ, len(pts[0]))
+        assert [list(map(int, r)) for r in orders] == want_orders, f'{where}: order list {orders.tolist()}'
+        assert np.shape(vals) == (len(want_orders), len(clist)), f'{where}: shape {np.shape(vals)}'
+        for k, order in enumerate(want_orders):
+            for ci, c in enumerate(clist):
+                want, scale = direct(typ, order, pts, w, flist, c)
+                got = float(vals[k][ci])
+                assert got == got and abs(got - want) <= 1e-9 * (scale + 1e-300), f'{where}: {typ} row {k} {order} centre {ci} {c}: moments {got!r}, direct quadrature {want!r}'
+    types = data['types']
+    for rnd, seq in enumerate((types, types[::-1])):
+        for typ in seq:
+            check(typ, data['L'] if typ != 'pure-radial' else max(1, data['L']), f, fvals, centers, cs, f'pass {rnd}, same f array, {typ}')
+            unchanged(f'after {typ} (pass {rnd})')
+    i1 = float(g.integrate(f)); unchanged('after integrate(f)')
+    t1 = [a * b for a, b in zip(w, fvals)]
+    assert abs(i1 - math.fsum(t1)) <= 1e-12 * (math.fsum(map(abs, t1)) + 1e-300), f'integrate(f) = {i1!r}, sum w f = {math.fsum(t1)!r}'
+    i2 = float(g.integrate(f, f)); unchanged('after integrate(f, f)')
+    t2 = [a * b * b for a, b in zip(w, fvals)]
+    assert abs(i2 - math.fsum(t2)) <= 1e-12 * (math.fsum(map(abs, t2)) + 1e-300), f'integrate(f, f) with one array object twice = {i2!r}, sum w f^2 = {math.fsum(t2)!r}'
+    for typ in types:                                   # the grid's own arrays as arguments
+        check(typ, 1, g.weights, w, g.points, pts, f'f is grid.weights, centres are grid.points, {typ}')
+        unchanged(f'after {typ} with the own arrays of the grid')
+    if len(pts[0]) == 3:
+        dens = np.abs(f)                                 # a new array; the same object for both calls below
+        d1 = dipole_moment_of_molecule(g, dens, np.array(data['coords']), np.array(data['charges']))
+        d2 = dipole_moment_of_molecule(g, dens, np.array(data['coords']), np.array(data['charges']))
+        assert np.array_equal(np.asarray(d1), np.asarray(d2)), f'the dipole helper answered {list(d1)} and then {list(d2)} for the same density array'
+        assert np.array_equal(dens, np.abs(np.array(fvals))), 'the dipole helper modified the density array'
+        check('cartesian', 1, dens, [abs(x) for x in fvals], centers, cs, 'cartesian moments of the density array after the dipole helper')
+        unchanged('after the dipole helper')
+"""
+exec(SHARED_SRC, _ns)
+_ns["math"] = math
+shared_scenario = _ns["shared_scenario"]
+
+SHARED_SNIPPET = """import warnings; warnings.filterwarnings('ignore')
+import math, numpy as np
+from grid.basegrid import Grid
+from grid.utils import dipole_moment_of_molecule
+{ref_src}
+{shared_src}
+shared_scenario({data!r}, Grid, dipole_moment_of_molecule)
+"""
+
+
+def _oracle_shared_args(ctx: Ctx, budget: str):
+    ut = importlib.import_module("grid.utils")
+    bg = importlib.import_module("grid.basegrid")
+    for it in range(3 if budget == "small" else 30):
+        dim = (3, 3, 2, 1)[(it + ctx.seed) % 4] if it else 3
+        c = _lattice_case(ctx, "cartesian", dim, ctx.rng.randint(1, 3))
+        data = dict(pts=c["pts"], w=c["w"], f=c["f"], cs=c["cs"], L=c["L"], types=TYPES if dim == 3 else TYPES[:2],
+                    coords=[[_r(ctx.rng.uniform(-1, 1)) for _ in range(3)] for _ in range(2)], charges=[ctx.rng.randint(1, 82), ctx.rng.randint(1, 82)])
+        ctx.tagc(f"oracle:shared-arguments:dim{dim}")
+        try:
+            shared_scenario(data, bg.Grid, ut.dipole_moment_of_molecule)
+        except AssertionError as e:
+            ctx.fail("oracle", "basegrid.moments:shared-arguments", str(e)[:600], witness=data,
+                     snippet=SHARED_SNIPPET.format(ref_src=REF_SRC, shared_src=SHARED_SRC, data=data))
+        except Exception as e:
+            ctx.fail("oracle", "basegrid.moments:shared-arguments", f"raised {type(e).__name__}: {e}", witness=data,
+                     snippet=SHARED_SNIPPET.format(ref_src=REF_SRC, shared_src=SHARED_SRC, data=data))
+
+
+# round 4, class 17: kinds of function values — complex data (the moments are linear: real and imaginary part are the
+# moments of the real and imaginary parts), Python-complex-valued object-free arrays, longdouble; integrate likewise.
+VALUEKIND_SNIPPET = """import warnings; warnings.filterwarnings('ignore')
+import math, numpy as np
+from grid.basegrid import Grid
+{ref_src}
+pts, w, fr, fi, cs, typ, L, kind = {pts!r}, {w!r}, {fr!r}, {fi!r}, {cs!r}, {typ!r}, {L}, {kind!r}
+f = (np.array(fr) + 1j * np.array(fi)).astype(kind) if kind.startswith('complex') else np.array(fr).astype(kind)
+g = Grid(np.array(pts), np.array(w))
+vals = np.asarray(g.moments(L, np.array(cs), f, type_mom=typ))
+for k, order in enumerate(ref_all_orders(L, typ, len(pts[0]))):
+    for ci, c in enumerate(cs):
+        for part, fl in (('real', fr), ('imag', fi)):
+            want, scale = direct(typ, order, pts, w, fl, c)
+            got = float(getattr(vals[k][ci], part))
+            assert abs(got - want) <= 1e-9 * (scale + 1e-300), f'{{part}} part of row {{k}} {{order}} centre {{ci}}: {{got!r}}, direct quadrature {{want!r}}'
+i0 = complex(g.integrate(f))
+for part, fl in (('real', fr), ('imag', fi)):
+    t = [a * b for a, b in zip(w, fl)]
+    assert abs(getattr(i0, part) - math.fsum(t)) <= 1e-9 * (math.fsum(map(abs, t)) + 1e-300), f'integrate: {{part}} part {{getattr(i0, part)!r}}, sum w f = {{math.fsum(t)!r}}'
+"""
+
+
+def _oracle_value_kinds(ctx: Ctx, budget: str):
+    bg = importlib.import_module("grid.basegrid")
+    rng = ctx.rng
+    for it in range(8 if budget == "small" else 80):
+        typ = TYPES[it % 4]
+        kind = ("complex128", "complex64", "complex128", "longdouble")[(it // 4 + ctx.seed) % 4]
+        n, nc, L = rng.randint(1, 7), rng.randint(1, 3), rng.randint(1, 3)
+        cast = (lambda x: float(np.float32(x))) if kind == "complex64" else float
+        d = dict(pts=[[_r(rng.uniform(-1.5, 1.5)) for _ in range(3)] for _ in range(n)], w=[_r(rng.uniform(-0.5, 1.5)) for _ in range(n)],
+                 fr=[cast(_r(rng.uniform(-2, 2))) for _ in range(n)], fi=[cast(_r(rng.uniform(-2, 2))) if kind.startswith("complex") else 0.0 for _ in range(n)],
+                 cs=[[_r(rng.uniform(-1, 1)) for _ in range(3)] for _ in range(nc)], typ=typ, L=L, kind=kind)
+        if rng.random() < 0.3:
+            d["cs"][0] = list(d["pts"][0])
+        ctx.tagc(f"oracle:value-kind:{kind}")
+        snip = VALUEKIND_SNIPPET.format(ref_src=REF_SRC, **d)
+        try:
+            exec(snip, {})
+        except AssertionError as e:
+            ctx.fail("oracle", f"basegrid.moments:{typ}:{kind}", str(e)[:500], witness=d, snippet=snip)
+        except Exception as e:
+            ctx.fail("oracle", f"basegrid.moments:{typ}:{kind}", f"function values of kind {kind}: raised {type(e).__name__}: {e}", witness=d, snippet=snip)
+
 
 def _oracle_integrate(ctx: Ctx, budget: str):
     """Grid.integrate is the grid quadrature: sum_i w_i prod_k a_k[i] for 1-4 arrays, values over 24 orders of magnitude."""
@@ -1383,178 +1767,216 @@ def oracle(ctx: Ctx, budget: str):
     order generated differently; dipole against its defining formula."""
     ut = importlib.import_module("grid.utils")
     bg = importlib.import_module("grid.basegrid")
-    # order generator
-    for ty in TYPES:
-        for dim in (1, 2, 3):
-            for l in range(0, 7 if budget == "small" else 12):
-                want = ref_orders(l, ty, dim)
-                try:
-                    got = np.asarray(ut.generate_orders_horton_order(l, ty, dim))
-                    got = got.reshape(-1, 1) if got.ndim == 1 and ty == "radial" else got
-                    got = [[int(x) for x in r] for r in got]
-                except Exception as e:
-                    got = [f"raised {type(e).__name__}: {e}"]
-                if got != want and not (got == [] and want == []):
-                    ctx.fail("oracle", f"utils.generate_orders_horton_order:{ty}" + (f":dim{dim}" if ty == "cartesian" else ""),
-                             f"generate_orders_horton_order({l}, {ty}, {dim}) = {got[:6]}…, documented Horton order {want[:6]}…",
-                             witness=dict(order=l, type=ty, dim=dim),
-                             snippet="import warnings; warnings.filterwarnings('ignore')\nimport numpy as np\nfrom grid.utils import generate_orders_horton_order\n" + REF_SRC
-                             + f"\ntry:\n    got = np.asarray(generate_orders_horton_order({l}, {ty!r}, {dim})); got = got.reshape(-1,1) if got.ndim == 1 else got\n"
-                               f"except Exception as e:\n    raise AssertionError(f'raised {{type(e).__name__}}: {{e}}')\n"
-                               f"assert [list(map(int, r)) for r in got] == ref_orders({l}, {ty!r}, {dim}), got.tolist()\n")
-    # moments: entry = direct quadrature
-    n = 60 if budget == "small" else 700
-    cases = []
-    for ty in TYPES:
-        for dim in ((1, 2, 3) if ty in ("cartesian", "radial") else (3,)):
-            c = _case(ctx, ty, dim, Lmax=3)
+    parts = _Parts(ctx, "oracle")
+    with parts("orders"):
+        # order generator
+        for ty in TYPES:
+            for dim in (1, 2, 3):
+                for l in range(0, 7 if budget == "small" else 12):
+                    want = ref_orders(l, ty, dim)
+                    try:
+                        got = np.asarray(ut.generate_orders_horton_order(l, ty, dim))
+                        got = got.reshape(-1, 1) if got.ndim == 1 and ty == "radial" else got
+                        got = [[int(x) for x in r] for r in got]
+                    except Exception as e:
+                        got = [f"raised {type(e).__name__}: {e}"]
+                    if got != want and not (got == [] and want == []):
+                        ctx.fail("oracle", f"utils.generate_orders_horton_order:{ty}" + (f":dim{dim}" if ty == "cartesian" else ""),
+                                 f"generate_orders_horton_order({l}, {ty}, {dim}) = {got[:6]}…, documented Horton order {want[:6]}…",
+                                 witness=dict(order=l, type=ty, dim=dim),
+                                 snippet="import warnings; warnings.filterwarnings('ignore')\nimport numpy as np\nfrom grid.utils import generate_orders_horton_order\n" + REF_SRC
+                                 + f"\ntry:\n    got = np.asarray(generate_orders_horton_order({l}, {ty!r}, {dim})); got = got.reshape(-1,1) if got.ndim == 1 else got\n"
+                                   f"except Exception as e:\n    raise AssertionError(f'raised {{type(e).__name__}}: {{e}}')\n"
+                                   f"assert [list(map(int, r)) for r in got] == ref_orders({l}, {ty!r}, {dim}), got.tolist()\n")
+    with parts("orders-call-forms"):
+        # round 4, class 15: the default of `dim` and keyword forms
+        for ty in TYPES:
+            for l in range(0, 5):
+                want = ref_orders(l, ty, 3)
+                for name, src in (("dim omitted", f"generate_orders_horton_order({l}, {ty!r})"), ("keywords", f"generate_orders_horton_order(dim=3, type_ord={ty!r}, order={l})"),
+                                  ("dim=3 by keyword", f"generate_orders_horton_order({l}, {ty!r}, dim=3)")):
+                    snip = ("import warnings; warnings.filterwarnings('ignore')\nimport numpy as np\nfrom grid.utils import generate_orders_horton_order\n" + REF_SRC
+                            + f"\ngot = np.asarray({src}); got = got.reshape(-1, 1) if got.ndim == 1 else got\n"
+                              f"assert [list(map(int, r)) for r in got] == ref_orders({l}, {ty!r}, 3), got.tolist()\n")
+                    try:
+                        got = np.asarray(eval(src, {"generate_orders_horton_order": ut.generate_orders_horton_order}))
+                        got = [[int(x) for x in r] for r in (got.reshape(-1, 1) if got.ndim == 1 else got)]
+                    except Exception as e:
+                        got = [f"raised {type(e).__name__}: {e}"]
+                    if got != want and not (got == [] and want == []):
+                        ctx.fail("oracle", f"utils.generate_orders_horton_order:{ty}:call-form", f"{src} ({name}) = {got[:6]}…, documented Horton order in three dimensions {want[:6]}…",
+                                 witness=dict(order=l, type=ty, form=name), snippet=snip)
+    with parts("moments"):
+        # moments: entry = direct quadrature
+        n = 60 if budget == "small" else 700
+        cases = []
+        for ty in TYPES:
+            for dim in ((1, 2, 3) if ty in ("cartesian", "radial") else (3,)):
+                c = _case(ctx, ty, dim, Lmax=3)
+                cases.append(c)
+        cases += _systematic_cases(ctx)
+        n += len(cases)
+        while len(cases) < n:
+            c = _case(ctx)
+            if c["typ"] in ("pure", "pure-radial") and c["dim"] != 3:
+                continue
+            if c["typ"] == "pure-radial" and c["L"] == 0:
+                continue
             cases.append(c)
-    while len(cases) < n:
-        c = _case(ctx)
-        if c["typ"] in ("pure", "pure-radial") and c["dim"] != 3:
-            continue
-        if c["typ"] == "pure-radial" and c["L"] == 0:
-            continue
-        cases.append(c)
-    for c in cases:
-        if c["typ"] == "pure-radial" and c["L"] == 0:
-            c["L"] = 1
-        _oracle_case(ctx, c)
-    # state carried between calls on one grid object
-    for _ in range(10 if budget == "small" else 150):
-        _history_probe(ctx)
-    # a library grid with a smooth function (atomic grid), low orders
-    try:
-        od = importlib.import_module("grid.onedgrid")
-        rt = importlib.import_module("grid.rtransform")
-        ag = importlib.import_module("grid.atomgrid")
-        rg = rt.BeckeRTransform(1e-3, 1.5).transform_1d_grid(od.GaussLegendre(6))
-        # grids whose `points` is derived from what they store: an atomic grid away from the origin (it stores the points
-        # relative to its centre), rotated; a two-atom molecular grid; and the origin-centred atomic grid
-        from grid.molgrid import MolGrid
-        from grid.becke import BeckeWeights
-        ctr = np.array([_r(ctx.rng.uniform(-1.5, 1.5)) for _ in range(3)])
-        at0 = ag.AtomGrid(rg, degrees=[5])
-        at1 = ag.AtomGrid(rg, degrees=[5], center=ctr, rotate=ctx.rng.randrange(1, 1000))
-        at2 = ag.AtomGrid(rg, degrees=[3], center=-ctr)
-        mol = MolGrid(np.array([1, 8]), [at1, at2], BeckeWeights(order=3), store=bool(ctx.rng.randrange(2)))
-        for name, at, c0 in (("AtomGrid at the origin", at0, np.zeros(3)), (f"AtomGrid(center={ctr.tolist()}, rotated)", at1, ctr),
-                             ("MolGrid of two off-origin atoms", mol, ctr)):
-            P = np.asarray(at.points, dtype=float)
-            q = P - c0
-            fv = np.exp(-q[:, 0] ** 2 - 0.5 * (q[:, 1] - 0.2) ** 2 - q[:, 2] ** 2) * (1 + q[:, 0])
-            cs = [[0.1, -0.2, 0.3], [0.0, 0.0, 0.0]]
-            for ty in TYPES:
-                try:
-                    vals, orders = at.moments(2, np.array(cs), fv, type_mom=ty, return_orders=True)
-                except Exception as e:
-                    ctx.fail("oracle", f"basegrid.moments:{ty}:atomgrid", f"{name}: moments raised {type(e).__name__}: {e}", witness={"grid": name, "type_mom": ty})
-                    continue
-                orders = np.asarray(orders)
-                orders = orders.reshape(-1, 1) if orders.ndim == 1 else orders
-                ctx.tagc("oracle:moments:library-grid")
-                if [[int(x) for x in r] for r in orders] != ref_all_orders(2, ty, 3):
-                    ctx.fail("oracle", f"basegrid.moments:{ty}:atomgrid:orders", f"{name}: returned order list {orders.tolist()[:6]}… is not the documented Horton order",
-                             witness={"grid": name, "type_mom": ty})
-                    continue
-                for k, order in enumerate(orders):
-                    for ci, cen in enumerate(cs):
-                        want, scale = direct(ty, [int(x) for x in order], P.tolist(), np.asarray(at.weights, dtype=float).tolist(), fv.tolist(), cen)
-                        if not close(float(vals[k][ci]), want, rtol=1e-9, scale=scale + 1e-300):
-                            ctx.fail("oracle", f"basegrid.moments:{ty}:atomgrid", f"{name}: row {k} {order.tolist()} centre {ci}: {float(vals[k][ci])!r} vs direct quadrature over grid.points {want!r}",
-                                     witness={"grid": name, "type_mom": ty, "order": order.tolist(), "center": cen})
-    except ImportError:
-        pass
-    _library_grids(ctx, budget)
-    _underflow_info(ctx)
-    _oracle_integrate(ctx, budget)
-    _oracle_multidomain(ctx)
-    # 1-D grids of the library have a one-dimensional point array (N,)
-    od = importlib.import_module("grid.onedgrid")
-    for it in range(8 if budget == "small" else 100):
-        typ = ("cartesian", "radial")[it % 2]
-        if it < 2:
-            g1 = od.GaussLegendre(5)
-        else:
-            n = ctx.rng.randint(1, 9)
-            g1 = bg.OneDGrid(np.array(sorted(_r(ctx.rng.uniform(-1.5, 1.5)) for _ in range(n))), np.array([_r(ctx.rng.uniform(-0.5, 1.5)) for _ in range(n)]))
-        L = ctx.rng.randint(0, 6)
-        f1 = [_r(ctx.rng.uniform(-2, 2)) for _ in range(g1.size)]
-        cs = [[_r(ctx.rng.uniform(-1, 1))] for _ in range(ctx.rng.randint(1, 3))]
-        key = f"basegrid.moments:{typ}:points-1d"
-        snip = POINTS_1D_SNIPPET.format(pts=[float(x) for x in g1.points], w=[float(x) for x in g1.weights], f=f1, cs=cs, typ=typ, L=L)
-        wit = dict(points=[float(x) for x in g1.points], weights=[float(x) for x in g1.weights], f=f1, centers=cs, type_mom=typ, orders=L)
+        for c in cases:
+            if c["typ"] == "pure-radial" and c["L"] == 0:
+                c["L"] = 1
+            _oracle_case(ctx, c)
+    with parts("history"):
+        # state carried between calls on one grid object
+        for _ in range(10 if budget == "small" else 150):
+            _history_probe(ctx)
+    with parts("library-grid"):
+        # a library grid with a smooth function (atomic grid), low orders
         try:
-            got, orders = g1.moments(L, np.array(cs), np.array(f1), type_mom=typ, return_orders=True)
-        except Exception as e:
-            ctx.fail("oracle", key, f"{type(g1).__name__}.moments (points of shape (N,)) raised {type(e).__name__}: {e}", witness=wit, snippet=snip)
-            continue
-        if [int(x) for x in np.ravel(orders)] != list(range(L + 1)) or np.shape(got) != (L + 1, len(cs)):
-            ctx.fail("oracle", key + ":orders", f"order list {np.ravel(orders).tolist()} / shape {np.shape(got)} for L={L}", witness=wit, snippet=snip)
-            continue
-        for k in range(L + 1):
-            for ci, c in enumerate(cs):
-                want, scale = direct(typ, [k], [[float(x)] for x in g1.points], g1.weights, f1, c)
-                if not close(float(got[k][ci]), want, rtol=1e-9, scale=scale + 1e-300):
-                    ctx.fail("oracle", key, f"row {k}, centre {ci}: moments {float(got[k][ci])!r}, direct quadrature {want!r}", witness=wit, snippet=snip)
-    # dipole: every element of the mass table (the last one in every run), charged species (the dipole of a neutral
-    # molecule does not depend on the centre: the density is normalised to sum Z - q, q = -2 … 2), far-away molecules
-    zmax = max(ut.isotopic_masses)
-    for z in sorted(ut.isotopic_masses):
-        m = float(ut.isotopic_masses[z])
-        if not (1 <= z <= len(_STD_WEIGHTS)) or abs(m - _STD_WEIGHTS[z - 1]) > 0.025 * _STD_WEIGHTS[z - 1]:
-            ctx.fail("oracle", "utils.isotopic_masses", f"mass of Z={z} is {m}, the standard atomic weight is {_STD_WEIGHTS[z - 1] if 1 <= z <= len(_STD_WEIGHTS) else None} "
-                     "(an isotopic mass lies within 2.5 % of it)", witness=dict(Z=z, mass=m))
-    for z, m in _MASS_SPOT.items():                   # the source cites Audi & Wapstra 1993/1995: spot values from there
-        got = ut.isotopic_masses.get(z)
-        if got is None or abs(float(got) - m) > 1e-9:
-            ctx.fail("oracle", "utils.isotopic_masses", f"isotopic_masses[{z}] is {got!r}, the tabulated mass of the most abundant isotope is {m}", witness=dict(Z=z),
-                     snippet=f"from grid.utils import isotopic_masses\nassert abs(isotopic_masses[{z}] - {m}) <= 1e-9, isotopic_masses[{z}]\n")
-    for z, m in _MASS_REFERENCE.items():
-        got = ut.isotopic_masses.get(z)
-        if got is None or abs(float(got) - m) > 1e-9:
-            ctx.fail("oracle", "utils.isotopic_masses", f"isotopic_masses[{z}] is {got!r}; the table as transcribed from the cited source has {m}", witness=dict(Z=z),
-                     snippet=f"from grid.utils import isotopic_masses\nassert abs(isotopic_masses[{z}] - {m}) <= 1e-9, isotopic_masses[{z}]\n")
-    dup = [(a, b) for a in sorted(ut.isotopic_masses) for b in sorted(ut.isotopic_masses) if a < b and ut.isotopic_masses[a] == ut.isotopic_masses[b]]
-    if dup:
-        ctx.fail("oracle", "utils.isotopic_masses", f"elements {dup} share one isotopic mass ({ut.isotopic_masses[dup[0][0]]})", witness=dict(Z=dup),
-                 snippet="from grid.utils import isotopic_masses as m\nassert len(set(m.values())) == len(m), sorted(z for z in m if list(m.values()).count(m[z]) > 1)\n")
-    if set(ut.isotopic_masses) != set(_MASS_REFERENCE):
-        extra = sorted(set(ut.isotopic_masses) ^ set(_MASS_REFERENCE))
-        ctx.fail("oracle", "utils.isotopic_masses", f"the keys of isotopic_masses differ from 1..82 at {extra}", witness=dict(Z=extra),
-                 snippet="from grid.utils import isotopic_masses\nassert sorted(isotopic_masses) == list(range(1, 83)), sorted(isotopic_masses)\n")
-    for it in range(24 if budget == "small" else 300):
-        na = ctx.rng.randint(1, 4)
-        npt = ctx.rng.randint(1, 15)
-        d = dict(pts=[[_r(ctx.rng.uniform(-2, 2)) for _ in range(3)] for _ in range(npt)],
-                 w=[_r(ctx.rng.uniform(0.0, 1.5)) for _ in range(npt)],
-                 dens=[_r(ctx.rng.uniform(0.0, 2.0)) for _ in range(npt)],
-                 coords=[[_r(ctx.rng.uniform(-1.5, 1.5)) for _ in range(3)] for _ in range(na)],
-                 charges=[ctx.rng.choice([1, 6, 7, 8, ctx.rng.randint(1, zmax), ctx.rng.randint(1, zmax)]) for _ in range(na)])
-        if it == 0:
-            d["charges"][0] = zmax                                   # the last entry of the table
-        elif it == 1:
-            d["charges"][-1] = 1
-        elif it < 6:
-            d["charges"][0] = (it * 17 + ctx.seed * 7) % zmax + 1        # walks through the table with the seed
-        q = ctx.rng.choice([0, 0, 1, -1, 2, -2])
-        ne, tot = math.fsum(a * b for a, b in zip(d["w"], d["dens"])), sum(d["charges"]) - q
-        if it % 2 == 0 and ne > 0 and tot > 0:                       # net charge exactly q (up to rounding)
-            d["dens"] = [x * tot / ne for x in d["dens"]]
-            d["net_charge"] = q
-        if it % 5 == 4:                                              # the whole system 2^k away from the origin
-            k = ctx.rng.randint(10, 20)
-            T = [ctx.rng.choice([-1.0, 1.0]) * 2.0 ** k for _ in range(3)]
-            d["pts"] = [[x + t for x, t in zip(p_, T)] for p_ in d["pts"]]
-            d["coords"] = [[x + t for x, t in zip(p_, T)] for p_ in d["coords"]]
-            d["shift"] = f"2^{k}"
-        missing = [z for z in d["charges"] if z not in ut.isotopic_masses]
-        if missing:
-            ctx.fail("oracle", "utils.isotopic_masses", f"no entry for Z = {missing}", witness=dict(Z=missing),
-                     snippet=f"from grid.utils import isotopic_masses\nassert all(z in isotopic_masses for z in {missing})\n")
-            continue
-        d["masses"] = [float(ut.isotopic_masses[z]) for z in d["charges"]]
-        d["container"] = ctx.rng.choice(["array", "array", "list", "int32-charges", "float-charges", "readonly"])
-        d["twice"] = ctx.rng.random() < 0.3
-        ctx.tagc("oracle:dipole:" + ("charged" if d.get("net_charge") else "shifted" if d.get("shift") else "plain"))
-        _oracle_dipole_case(ctx, d)
+            od = importlib.import_module("grid.onedgrid")
+            rt = importlib.import_module("grid.rtransform")
+            ag = importlib.import_module("grid.atomgrid")
+            rg = rt.BeckeRTransform(1e-3, 1.5).transform_1d_grid(od.GaussLegendre(6))
+            # grids whose `points` is derived from what they store: an atomic grid away from the origin (it stores the points
+            # relative to its centre), rotated; a two-atom molecular grid; and the origin-centred atomic grid
+            from grid.molgrid import MolGrid
+            from grid.becke import BeckeWeights
+            ctr = np.array([_r(ctx.rng.uniform(-1.5, 1.5)) for _ in range(3)])
+            at0 = ag.AtomGrid(rg, degrees=[5])
+            at1 = ag.AtomGrid(rg, degrees=[5], center=ctr, rotate=ctx.rng.randrange(1, 1000))
+            at2 = ag.AtomGrid(rg, degrees=[3], center=-ctr)
+            mol = MolGrid(np.array([1, 8]), [at1, at2], BeckeWeights(order=3), store=bool(ctx.rng.randrange(2)))
+            for name, at, c0 in (("AtomGrid at the origin", at0, np.zeros(3)), (f"AtomGrid(center={ctr.tolist()}, rotated)", at1, ctr),
+                                 ("MolGrid of two off-origin atoms", mol, ctr)):
+                P = np.asarray(at.points, dtype=float)
+                q = P - c0
+                fv = np.exp(-q[:, 0] ** 2 - 0.5 * (q[:, 1] - 0.2) ** 2 - q[:, 2] ** 2) * (1 + q[:, 0])
+                cs = [[0.1, -0.2, 0.3], [0.0, 0.0, 0.0]]
+                for ty in TYPES:
+                    try:
+                        vals, orders = at.moments(2, np.array(cs), fv, type_mom=ty, return_orders=True)
+                    except Exception as e:
+                        ctx.fail("oracle", f"basegrid.moments:{ty}:atomgrid", f"{name}: moments raised {type(e).__name__}: {e}", witness={"grid": name, "type_mom": ty})
+                        continue
+                    orders = np.asarray(orders)
+                    orders = orders.reshape(-1, 1) if orders.ndim == 1 else orders
+                    ctx.tagc("oracle:moments:library-grid")
+                    if [[int(x) for x in r] for r in orders] != ref_all_orders(2, ty, 3):
+                        ctx.fail("oracle", f"basegrid.moments:{ty}:atomgrid:orders", f"{name}: returned order list {orders.tolist()[:6]}… is not the documented Horton order",
+                                 witness={"grid": name, "type_mom": ty})
+                        continue
+                    for k, order in enumerate(orders):
+                        for ci, cen in enumerate(cs):
+                            want, scale = direct(ty, [int(x) for x in order], P.tolist(), np.asarray(at.weights, dtype=float).tolist(), fv.tolist(), cen)
+                            if not close(float(vals[k][ci]), want, rtol=1e-9, scale=scale + 1e-300):
+                                ctx.fail("oracle", f"basegrid.moments:{ty}:atomgrid", f"{name}: row {k} {order.tolist()} centre {ci}: {float(vals[k][ci])!r} vs direct quadrature over grid.points {want!r}",
+                                         witness={"grid": name, "type_mom": ty, "order": order.tolist(), "center": cen})
+        except ImportError:
+            pass
+    with parts("derived-points"):
+        _library_grids(ctx, budget)
+    with parts("underflow-info"):
+        _underflow_info(ctx)
+    with parts("integrate"):
+        _oracle_integrate(ctx, budget)
+    with parts("multidomain"):
+        _oracle_multidomain(ctx)
+    with parts("shared-arguments"):
+        _oracle_shared_args(ctx, budget)
+    with parts("value-kinds"):
+        _oracle_value_kinds(ctx, budget)
+    with parts("points-1d"):
+        # 1-D grids of the library have a one-dimensional point array (N,)
+        od = importlib.import_module("grid.onedgrid")
+        for it in range(8 if budget == "small" else 100):
+            typ = ("cartesian", "radial")[it % 2]
+            if it < 2:
+                g1 = od.GaussLegendre(5)
+            else:
+                n = ctx.rng.randint(1, 9)
+                g1 = bg.OneDGrid(np.array(sorted(_r(ctx.rng.uniform(-1.5, 1.5)) for _ in range(n))), np.array([_r(ctx.rng.uniform(-0.5, 1.5)) for _ in range(n)]))
+            L = ctx.rng.randint(0, 6)
+            f1 = [_r(ctx.rng.uniform(-2, 2)) for _ in range(g1.size)]
+            cs = [[_r(ctx.rng.uniform(-1, 1))] for _ in range(ctx.rng.randint(1, 3))]
+            key = f"basegrid.moments:{typ}:points-1d"
+            snip = POINTS_1D_SNIPPET.format(pts=[float(x) for x in g1.points], w=[float(x) for x in g1.weights], f=f1, cs=cs, typ=typ, L=L)
+            wit = dict(points=[float(x) for x in g1.points], weights=[float(x) for x in g1.weights], f=f1, centers=cs, type_mom=typ, orders=L)
+            try:
+                got, orders = g1.moments(L, np.array(cs), np.array(f1), type_mom=typ, return_orders=True)
+            except Exception as e:
+                ctx.fail("oracle", key, f"{type(g1).__name__}.moments (points of shape (N,)) raised {type(e).__name__}: {e}", witness=wit, snippet=snip)
+                continue
+            if [int(x) for x in np.ravel(orders)] != list(range(L + 1)) or np.shape(got) != (L + 1, len(cs)):
+                ctx.fail("oracle", key + ":orders", f"order list {np.ravel(orders).tolist()} / shape {np.shape(got)} for L={L}", witness=wit, snippet=snip)
+                continue
+            for k in range(L + 1):
+                for ci, c in enumerate(cs):
+                    want, scale = direct(typ, [k], [[float(x)] for x in g1.points], g1.weights, f1, c)
+                    if not close(float(got[k][ci]), want, rtol=1e-9, scale=scale + 1e-300):
+                        ctx.fail("oracle", key, f"row {k}, centre {ci}: moments {float(got[k][ci])!r}, direct quadrature {want!r}", witness=wit, snippet=snip)
+    with parts("masses"):
+        # dipole: every element of the mass table (the last one in every run), charged species (the dipole of a neutral
+        # molecule does not depend on the centre: the density is normalised to sum Z - q, q = -2 … 2), far-away molecules
+        zmax = max(ut.isotopic_masses)
+        for z in sorted(ut.isotopic_masses):
+            m = float(ut.isotopic_masses[z])
+            if not (1 <= z <= len(_STD_WEIGHTS)) or abs(m - _STD_WEIGHTS[z - 1]) > 0.025 * _STD_WEIGHTS[z - 1]:
+                ctx.fail("oracle", "utils.isotopic_masses", f"mass of Z={z} is {m}, the standard atomic weight is {_STD_WEIGHTS[z - 1] if 1 <= z <= len(_STD_WEIGHTS) else None} "
+                         "(an isotopic mass lies within 2.5 % of it)", witness=dict(Z=z, mass=m))
+        for z, m in _MASS_SPOT.items():                   # the source cites Audi & Wapstra 1993/1995: spot values from there
+            got = ut.isotopic_masses.get(z)
+            if got is None or abs(float(got) - m) > 1e-9:
+                ctx.fail("oracle", "utils.isotopic_masses", f"isotopic_masses[{z}] is {got!r}, the tabulated mass of the most abundant isotope is {m}", witness=dict(Z=z),
+                         snippet=f"from grid.utils import isotopic_masses\nassert abs(isotopic_masses[{z}] - {m}) <= 1e-9, isotopic_masses[{z}]\n")
+        for z, m in _MASS_REFERENCE.items():
+            got = ut.isotopic_masses.get(z)
+            if got is None or abs(float(got) - m) > 1e-9:
+                ctx.fail("oracle", "utils.isotopic_masses", f"isotopic_masses[{z}] is {got!r}; the table as transcribed from the cited source has {m}", witness=dict(Z=z),
+                         snippet=f"from grid.utils import isotopic_masses\nassert abs(isotopic_masses[{z}] - {m}) <= 1e-9, isotopic_masses[{z}]\n")
+        dup = [(a, b) for a in sorted(ut.isotopic_masses) for b in sorted(ut.isotopic_masses) if a < b and ut.isotopic_masses[a] == ut.isotopic_masses[b]]
+        if dup:
+            ctx.fail("oracle", "utils.isotopic_masses", f"elements {dup} share one isotopic mass ({ut.isotopic_masses[dup[0][0]]})", witness=dict(Z=dup),
+                     snippet="from grid.utils import isotopic_masses as m\nassert len(set(m.values())) == len(m), sorted(z for z in m if list(m.values()).count(m[z]) > 1)\n")
+        if set(ut.isotopic_masses) != set(_MASS_REFERENCE):
+            extra = sorted(set(ut.isotopic_masses) ^ set(_MASS_REFERENCE))
+            ctx.fail("oracle", "utils.isotopic_masses", f"the keys of isotopic_masses differ from 1..82 at {extra}", witness=dict(Z=extra),
+                     snippet="from grid.utils import isotopic_masses\nassert sorted(isotopic_masses) == list(range(1, 83)), sorted(isotopic_masses)\n")
+    with parts("dipole"):
+        zmax = max(ut.isotopic_masses)
+        for it in range(24 if budget == "small" else 300):
+            na = ctx.rng.randint(1, 4)
+            npt = ctx.rng.randint(1, 15)
+            d = dict(pts=[[_r(ctx.rng.uniform(-2, 2)) for _ in range(3)] for _ in range(npt)],
+                     w=[_r(ctx.rng.uniform(0.0, 1.5)) for _ in range(npt)],
+                     dens=[_r(ctx.rng.uniform(0.0, 2.0)) for _ in range(npt)],
+                     coords=[[_r(ctx.rng.uniform(-1.5, 1.5)) for _ in range(3)] for _ in range(na)],
+                     charges=[ctx.rng.choice([1, 6, 7, 8, ctx.rng.randint(1, zmax), ctx.rng.randint(1, zmax)]) for _ in range(na)])
+            if it == 0:
+                d["charges"][0] = zmax                                   # the last entry of the table
+            elif it == 1:
+                d["charges"][-1] = 1
+            elif it < 6:
+                d["charges"][0] = (it * 17 + ctx.seed * 7) % zmax + 1        # walks through the table with the seed
+            q = ctx.rng.choice([0, 0, 1, -1, 2, -2])
+            ne, tot = math.fsum(a * b for a, b in zip(d["w"], d["dens"])), sum(d["charges"]) - q
+            if it % 2 == 0 and ne > 0 and tot > 0:                       # net charge exactly q (up to rounding)
+                d["dens"] = [x * tot / ne for x in d["dens"]]
+                d["net_charge"] = q
+            if it % 5 == 4:                                              # the whole system 2^k away from the origin
+                k = ctx.rng.randint(10, 20)
+                T = [ctx.rng.choice([-1.0, 1.0]) * 2.0 ** k for _ in range(3)]
+                d["pts"] = [[x + t for x, t in zip(p_, T)] for p_ in d["pts"]]
+                d["coords"] = [[x + t for x, t in zip(p_, T)] for p_ in d["coords"]]
+                d["shift"] = f"2^{k}"
+            missing = [z for z in d["charges"] if z not in ut.isotopic_masses]
+            if missing:
+                ctx.fail("oracle", "utils.isotopic_masses", f"no entry for Z = {missing}", witness=dict(Z=missing),
+                         snippet=f"from grid.utils import isotopic_masses\nassert all(z in isotopic_masses for z in {missing})\n")
+                continue
+            d["masses"] = [float(ut.isotopic_masses[z]) for z in d["charges"]]
+            d["container"] = ctx.rng.choice(["array", "array", "list", "int32-charges", "float-charges", "readonly", "keywords"])
+            d["twice"] = ctx.rng.random() < 0.3
+            ctx.tagc("oracle:dipole:" + ("charged" if d.get("net_charge") else "shifted" if d.get("shift") else "plain"))
+            _oracle_dipole_case(ctx, d)
+    parts.finish()
